@@ -107,33 +107,36 @@ Proof. destruct m; cbn; auto. Qed.
 Lemma exec_steps g t m : steps (snd (exec c V g t m)) = steps t.
 Proof. unfold steps. destruct (exec_thread g t m) as [-> ->]. auto. Qed.
 
-(* a walk is only ever executed after the registration *)
-Fixpoint wok (subs : bool) (l : list mstep) : bool :=
+(* a walk of subscription [j] is only ever executed after its registration *)
+Fixpoint wok (j : nat) (reg : bool) (l : list mstep) : bool :=
   match l with
   | [] => true
-  | MSubReg :: t => wok true t
-  | MWalk :: t => subs && wok subs t
-  | _ :: t => wok subs t
+  | MSubReg i :: t => wok j (reg || Nat.eqb i j) t
+  | MWalk i :: t => (negb (Nat.eqb i j) || reg) && wok j reg t
+  | _ :: t => wok j reg t
   end.
 
-Lemma wok_mono l : forall b, wok b l = true -> wok true l = true.
+Lemma wok_mono j l : forall b, wok j b l = true -> wok j true l = true.
 Proof.
-  induction l as [|m t IH]; intros b H; auto. destruct m; cbn [wok] in *; auto.
-  - apply andb_true_iff in H. destruct H as [_ H]. rewrite (IH _ H). auto.
-  - eauto. - eauto. - eauto. - eauto. - eauto. - eauto. - eauto. - eauto. - eauto. - eauto. - eauto.
+  induction l as [|m t IH]; intros b H; auto.
+  destruct m; cbn [wok] in *; try (eapply IH; eassumption).
+  apply andb_true_iff in H. destruct H as [_ H]. rewrite orb_true_r. cbn [andb]. eauto.
 Qed.
 
-Lemma wok_app b l1 l2 : wok b l1 = true -> (forall b', wok b' l2 = true) -> wok b (l1 ++ l2) = true.
+Lemma wok_app j b l1 l2 : wok j b l1 = true -> (forall b', wok j b' l2 = true) -> wok j b (l1 ++ l2) = true.
 Proof.
   revert b. induction l1 as [|m t IH]; intros b H1 H2; cbn [app]; auto.
   destruct m; cbn [wok] in *; auto.
   apply andb_true_iff in H1. destruct H1 as [-> H1]. cbn. auto.
 Qed.
 
-Lemma wok_expand o b : wok b (expand o) = true.
-Proof. destruct o; reflexivity. Qed.
+Lemma wok_expand j o b : wok j b (expand o) = true.
+Proof.
+  destruct o; cbn [expand wok]; auto.
+  destruct (Nat.eqb j0 j); cbn; rewrite ?orb_true_r; auto.
+Qed.
 
-Lemma wok_flat ops : forall b, wok b (flat_map expand ops) = true.
+Lemma wok_flat j ops : forall b, wok j b (flat_map expand ops) = true.
 Proof.
   induction ops as [|o t IH]; intro b; auto. cbn [flat_map].
   apply wok_app; auto. apply wok_expand.
@@ -143,73 +146,98 @@ Qed.
 Definition owns (p : N) (m : mstep) : Prop :=
   match m with
   | MInsPrep k _ | MInsLocked k _ | MRemPrep k | MRemLocked k => k_peer k = p
-  | MUp q | MUnregPrep q | MUnregShard q _ | MPeerDown q => q = p
+  | MUp q | MUnregPrep q | MUnregShard q _ | MPeerDown q | MStaleShard q _ | MPeerDownGr q => q = p
   | _ => False
   end.
 Definition owns_any (p : N) (l : list mstep) : Prop := exists m, In m l /\ owns p m.
 
-Definition exempt (s : sys) (p : N) : Prop := exists i, In (MPeerDown p) (steps (s_thr s i)).
+Definition staleK (g : glob) (k : key) : Prop := g_rib g k <> None /\ is_stale g k = true.
 
-(* the per-key relation between what the subscriber holds and the RIB *)
-Definition A (w : N) (phi rho : option N) (rnone ex : Prop) (sh : N) : Prop :=
-  phi = rho \/ (w <= sh /\ phi = None) \/ (rnone /\ ex).
+(* the per-key relation between what a subscription holds and the RIB *)
+Definition A (w : N) (phi rho : option N) (st : Prop) (sh : N) : Prop :=
+  phi = rho \/ (w <= sh /\ phi = None) \/ (st /\ phi = None).
 
 Record Inv (s : sys) : Prop := {
-  i_pre : g_subs (s_g s) = false ->
-          (forall b k, fold_b b (g_evs (s_g s)) k = None) /\ g_walk (s_g s) = 0;
-  i_wok : forall i, wok (g_subs (s_g s)) (steps (s_thr s i)) = true;
+  i_pre : forall j, g_ph (s_g s) j = 0 ->
+          (forall b k, fold_b b (g_evs (s_g s) j) k = None) /\ g_walk (s_g s) j = 0;
+  i_wok : forall i j, wok j (negb (g_ph (s_g s) j =? 0)) (steps (s_thr s i)) = true;
   i_dom : forall k, g_rib (s_g s) k <> None -> In k (g_keys (s_g s));
-  i_key : forall b k, A (g_walk (s_g s)) (fold_b b (g_evs (s_g s)) k) (ribv b (g_rib (s_g s)) k)
-                        (g_rib (s_g s) k = None) (exempt s (k_peer k)) (shard_of k);
+  i_key : forall j b k, g_ph (s_g s) j = 1 ->
+          A (g_walk (s_g s) j) (fold_b b (g_evs (s_g s) j) k) (ribv b (g_rib (s_g s)) k)
+            (staleK (s_g s) k) (shard_of k);
   i_drop : forall i p,
       (t_cur (s_thr s i) = [MUnregShard p 1; MPeerDown p] ->
        forall k, k_peer k = p -> shard_of k = 0 -> g_rib (s_g s) k = None) /\
-      (t_cur (s_thr s i) = [MPeerDown p] -> forall k, k_peer k = p -> g_rib (s_g s) k = None);
+      (t_cur (s_thr s i) = [MPeerDown p] -> forall k, k_peer k = p -> g_rib (s_g s) k = None) /\
+      (t_cur (s_thr s i) = [MStaleShard p 1; MPeerDownGr p] ->
+       forall k, k_peer k = p -> shard_of k = 0 -> g_rib (s_g s) k <> None -> is_stale (s_g s) k = true) /\
+      (t_cur (s_thr s i) = [MPeerDownGr p] ->
+       forall k, k_peer k = p -> g_rib (s_g s) k <> None -> is_stale (s_g s) k = true);
   i_own : forall i j p, i <> j -> owns_any p (steps (s_thr s i)) -> owns_any p (steps (s_thr s j)) -> False;
   i_cur : forall i, valid_cur (t_cur (s_thr s i))
 }.
 
-(* ---- what one atomic step does to the shared state, per key *)
-Definition nonnone {A} (o : option A) : bool := match o with Some _ => true | None => false end.
+(* ---- what one atomic step does to the shared state, per key and per subscription *)
+Definition F (g : glob) (j : nat) (b : bool) (k : key) : option N := fold_b b (g_evs g j) k.
+
+Definition inkeys (g : glob) (k : key) : bool := existsb (key_eqb k) (g_keys g).
+
+(* nothing but the listed components changes *)
+Definition frame (g g' : glob) : Prop :=
+  g_ph g' = g_ph g /\ g_walk g' = g_walk g /\ g_stale g' = g_stale g /\ g_ssn g' = g_ssn g.
 
 Definition effect (g : glob) (t : thread) (m : mstep) (g' : glob) : Prop :=
   match m with
-  | MSubReg => g_subs g' = true /\ g_keys g' = g_keys g /\ g_rib g' = g_rib g /\
-               g_walk g' = g_walk g /\ g_evs g' = g_evs g
-  | MWalk => g_subs g' = g_subs g /\ g_keys g' = g_keys g /\ g_rib g' = g_rib g /\
-             g_walk g' = g_walk g + 1 /\
-             forall b k, fold_b b (g_evs g') k =
-                         if in_shard (g_walk g) k && existsb (key_eqb k) (g_keys g) && nonnone (ribv b (g_rib g) k)
-                         then ribv b (g_rib g) k else fold_b b (g_evs g) k
+  | MSubReg j0 =>
+    g_ph g' = (if g_ph g j0 =? 0 then upd_nat j0 1 (g_ph g) else g_ph g) /\ g_walk g' = g_walk g /\ g_stale g' = g_stale g /\ g_ssn g' = g_ssn g /\
+    g_keys g' = g_keys g /\ g_rib g' = g_rib g /\ g_evs g' = g_evs g
+  | MUnsub j0 =>
+    g_ph g' = upd_nat j0 2 (g_ph g) /\ g_walk g' = g_walk g /\ g_stale g' = g_stale g /\ g_ssn g' = g_ssn g /\
+    g_keys g' = g_keys g /\ g_rib g' = g_rib g /\ g_evs g' = g_evs g
+  | MWalk j0 =>
+    g_ph g' = g_ph g /\ g_walk g' = upd_nat j0 (g_walk g j0 + 1) (g_walk g) /\
+    g_stale g' = g_stale g /\ g_ssn g' = g_ssn g /\ g_keys g' = g_keys g /\ g_rib g' = g_rib g /\
+    forall j b k, F g' j b k =
+                  if Nat.eqb j j0 && in_shard (g_walk g j0) k && inkeys g k && nonnone (ribv b (g_rib g) k)
+                  then ribv b (g_rib g) k else F g j b k
   | MInsLocked k0 tok =>
-    g_subs g' = g_subs g /\ g_walk g' = g_walk g /\
+    g_ph g' = g_ph g /\ g_walk g' = g_walk g /\ g_stale g' = g_stale g /\
+    (forall k, k <> k0 -> g_ssn g' k = g_ssn g k) /\
     (forall k, In k (g_keys g) -> In k (g_keys g')) /\
     (g_rib g' k0 <> None -> In k0 (g_keys g')) /\
     (forall k, k <> k0 -> g_rib g' k = g_rib g k) /\
     (g_rib g' k0 = None -> g_rib g k0 = None) /\
-    forall b k, fold_b b (g_evs g') k =
-                if g_subs g && key_eqb k k0 then ribv b (g_rib g') k0 else fold_b b (g_evs g) k
+    forall j b k, F g' j b k = if live g j && key_eqb k k0 then ribv b (g_rib g') k0 else F g j b k
   | MRemLocked k0 =>
-    g_subs g' = g_subs g /\ g_walk g' = g_walk g /\ g_keys g' = g_keys g /\
+    frame g g' /\ g_keys g' = g_keys g /\
     (forall k, g_rib g' k = if key_eqb k k0 then None else g_rib g k) /\
-    forall b k, fold_b b (g_evs g') k =
-                if g_subs g && key_eqb k k0 then None else fold_b b (g_evs g) k
+    forall j b k, F g' j b k = if live g j && key_eqb k k0 then None else F g j b k
   | MUnregShard p s =>
-    g_subs g' = g_subs g /\ g_walk g' = g_walk g /\ g_keys g' = g_keys g /\ g_evs g' = g_evs g /\
-    (forall k, g_rib g' k = if (k_peer k =? p) && in_shard s k then None else g_rib g k)
-  | MPeerDown p =>
-    g_subs g' = g_subs g /\ g_walk g' = g_walk g /\ g_keys g' = g_keys g /\ g_rib g' = g_rib g /\
-    forall b k, fold_b b (g_evs g') k =
-                if g_subs g && (k_peer k =? p) then None else fold_b b (g_evs g) k
+    frame g g' /\ g_keys g' = g_keys g /\
+    (forall k, g_rib g' k = if purge_sel g PAll p s k then None else g_rib g k) /\
+    forall j b k, F g' j b k =
+                  if live g j && purge_sel g PAll p s k && nonnone (g_rib g k) && inkeys g k then None else F g j b k
+  | MPurgeShard all p s =>
+    frame g g' /\ g_keys g' = g_keys g /\
+    (forall k, g_rib g' k = if purge_sel g all p s k then None else g_rib g k) /\
+    forall j b k, F g' j b k =
+                  if live g j && purge_sel g all p s k && nonnone (g_rib g k) && inkeys g k then None else F g j b k
+  | MPeerDown p | MPeerDownGr p =>
+    frame g g' /\ g_keys g' = g_keys g /\ g_rib g' = g_rib g /\
+    forall j b k, F g' j b k = if live g j && (k_peer k =? p) then None else F g j b k
+  | MStaleShard p s =>
+    g_ph g' = g_ph g /\ g_walk g' = g_walk g /\ g_ssn g' = g_ssn g /\
+    g_keys g' = g_keys g /\ g_rib g' = g_rib g /\ g_evs g' = g_evs g /\
+    (forall k, is_stale g k = true -> is_stale g' k = true) /\
+    (forall k, k_peer k = p -> in_shard s k = true -> g_rib g k <> None -> inkeys g k = true -> is_stale g' k = true)
   | MResetShard p s =>
-    g_subs g' = g_subs g /\ g_walk g' = g_walk g /\ g_keys g' = g_keys g /\
-    (forall k, g_rib g' k = reset_rib (g_rib g) (rejects c (t_pol t) p) p s k) /\
-    forall b k, fold_b b (g_evs g') k =
-                if g_subs g && b && (k_peer k =? p) && in_shard s k && existsb (key_eqb k) (g_keys g) && nonnone (g_rib g k)
-                then ribv b (g_rib g') k else fold_b b (g_evs g) k
+    frame g g' /\ g_keys g' = g_keys g /\
+    (forall k, g_rib g' k = reset_rib g (rejects c (t_pol t) p) p s k) /\
+    forall j b k, F g' j b k =
+                  if live g j && b && reset_sel g p s k && inkeys g k && nonnone (g_rib g k)
+                  then ribv b (g_rib g') k else F g j b k
   | _ =>
-    g_subs g' = g_subs g /\ g_walk g' = g_walk g /\ g_keys g' = g_keys g /\ g_rib g' = g_rib g /\
-    forall b k, fold_b b (g_evs g') k = fold_b b (g_evs g) k
+    frame g g' /\ g_keys g' = g_keys g /\ g_rib g' = g_rib g /\ forall j b k, F g' j b k = F g j b k
   end.
 
 Lemma existsb_filter_key q (f : key -> bool) ks :
@@ -224,9 +252,10 @@ Proof.
     apply key_eqb_eq in EK. subst. rewrite EF. auto.
 Qed.
 
-Lemma send_fold b subs l m k :
-  fold_left (apply_b b) (send subs l) m k = if subs then fold_left (apply_b b) l m k else m k.
-Proof. destruct subs; reflexivity. Qed.
+Lemma bcast_fold b (subs : nat -> bool) evs l j k :
+  fold_b b (bcast subs evs l j) k =
+  if subs j then fold_left (apply_b b) l (fold_b b (evs j)) k else fold_b b (evs j) k.
+Proof. unfold bcast. destruct (subs j). apply (f_equal (fun f => f k)), fold_b_app. rewrite app_nil_r. auto. Qed.
 
 Lemma walk_fold b b' r ks m q :
   fold_left (apply_b b) (walk_evs b' r ks) m q =
@@ -238,6 +267,15 @@ Proof.
   2:{ intro k. destruct (ribv b' r k); auto. }
   rewrite fold_flat. destruct (Bool.eqb b b' && existsb (key_eqb q) ks); cbn [andb]; auto.
   destruct (ribv b' r q); cbn; auto.
+Qed.
+
+Lemma withdraw_fold b ks : forall m q,
+  fold_left (apply_b b) (flat_map (fun k => [evk false k None; evk true k None]) ks) m q =
+  if existsb (key_eqb q) ks then None else m q.
+Proof.
+  induction ks as [|k t IH]; intros m q; cbn [flat_map existsb app fold_left]; auto.
+  rewrite IH. destruct (existsb (key_eqb q) t); [destruct (key_eqb q k); auto|].
+  rewrite !apply_evk. destruct b; cbn [Bool.eqb andb]; destruct (key_eqb q k); auto.
 Qed.
 
 Lemma same_prefix_refl k : same_prefix k k = true.
@@ -256,12 +294,11 @@ Proof. unfold upd_rib. rewrite key_eqb_refl. auto. Qed.
 Lemma upd_rib_other k0 x r k : k <> k0 -> upd_rib k0 x r k = r k.
 Proof. intro H. unfold upd_rib. rewrite key_eqb_neq; auto. Qed.
 
-Lemma fold_two b subs k0 x y m k :
-  fold_left (apply_b b) (send subs [evk false k0 x; evk true k0 y]) m k =
-  if subs && key_eqb k k0 then (if b then y else x) else m k.
+Lemma fold_two b k0 x y m k :
+  fold_left (apply_b b) [evk false k0 x; evk true k0 y] m k =
+  if key_eqb k k0 then (if b then y else x) else m k.
 Proof.
-  rewrite send_fold. destruct subs; cbn [andb fold_left]; auto.
-  rewrite !apply_evk. destruct b; cbn [Bool.eqb andb]; destruct (key_eqb k k0); auto.
+  cbn [fold_left]. rewrite !apply_evk. destruct b; cbn [Bool.eqb andb]; destruct (key_eqb k k0); auto.
 Qed.
 
 Definition dom_ok (g : glob) : Prop := forall k, g_rib g k <> None -> In k (g_keys g).
@@ -276,101 +313,220 @@ Proof.
 Qed.
 
 Lemma ins_accept_effect g k0 tok filtered ctr :
-  let g' := set_evs_rib g (send (g_subs g) [evk false k0 (Some tok); evk true k0 (post_val tok filtered)])
-                        (add_key k0 (g_keys g)) (upd_rib k0 (Some (tok, filtered)) (g_rib g)) ctr in
-  g_subs g' = g_subs g /\ g_walk g' = g_walk g /\
-  (forall k, In k (g_keys g) -> In k (g_keys g')) /\
-  (g_rib g' k0 <> None -> In k0 (g_keys g')) /\
-  (forall k, k <> k0 -> g_rib g' k = g_rib g k) /\
-  (g_rib g' k0 = None -> g_rib g k0 = None) /\
-  forall b k, fold_b b (g_evs g') k =
-              if g_subs g && key_eqb k k0 then ribv b (g_rib g') k0 else fold_b b (g_evs g) k.
+  let g' := with_rib g (live g) [evk false k0 (Some tok); evk true k0 (post_val tok filtered)]
+                     (add_key k0 (g_keys g)) (upd_rib k0 (Some (tok, filtered)) (g_rib g))
+                     (fun q => if key_eqb q k0 then g_sess g (k_peer k0) else g_ssn g q) ctr in
+  effect g {| t_cur := []; t_ops := []; t_pol := 0; t_subs := fun _ => false |} (MInsLocked k0 tok) g'.
 Proof.
-  cbn [set_evs_rib g_subs g_walk g_keys g_rib g_evs]. repeat split; auto.
+  cbn [effect with_rib g_ph g_walk g_stale g_ssn g_keys g_rib]. repeat split; auto.
+  - intros k H. rewrite key_eqb_neq; auto.
   - intros k H. apply add_key_in. auto.
   - intros _. apply add_key_in. auto.
   - intros k H. apply upd_rib_other. auto.
   - rewrite upd_rib_same. discriminate.
-  - intros b k. rewrite fold_b_app, fold_two. unfold ribv. rewrite upd_rib_same.
+  - intros j b k. unfold F. cbn [g_evs with_rib with_evs]. rewrite bcast_fold. destruct (live g j); cbn [andb]; auto.
+    rewrite fold_two. unfold ribv. rewrite upd_rib_same. destruct (key_eqb k k0); auto.
     destruct b, filtered; reflexivity.
 Qed.
 
 Lemma exec_effect g t m : dom_ok g -> effect g t m (fst (exec c V g t m)).
 Proof.
   intro HD. destruct m; cbn [exec fst effect].
-  - (* MSubReg *) cbn. auto.
+  - (* MSubReg *) destruct (g_ph g j =? 0); cbn; repeat split; auto.
   - (* MWalk *)
-    unfold walk_shard. cbn [g_subs g_keys g_rib g_walk g_evs]. repeat (split; auto).
-    intros b k. rewrite fold_b_app, !fold_left_app.
-    assert (HE : forall m0, fold_left (apply_b b) (if g_walk g + 1 =? 2 then [EvEnd] else []) m0 k = m0 k).
-    { intro m0. destruct (g_walk g + 1 =? 2); cbn; auto. destruct b; reflexivity. }
-    rewrite HE, !walk_fold, !existsb_filter_key.
+    unfold walk_shard. cbn [g_ph g_keys g_rib g_walk g_evs g_stale g_ssn]. repeat (split; auto).
+    intros j0 b k. unfold F. cbn [g_evs with_rib with_evs]. unfold upd_nat.
+    destruct (Nat.eqb j0 j) eqn:EJ; cbn [andb]; auto.
+    apply Nat.eqb_eq in EJ. subst j0.
+    rewrite fold_b_app, !fold_left_app.
+    assert (HE : forall m0, fold_left (apply_b b) (if g_walk g j + 1 =? 2 then [EvEnd] else []) m0 k = m0 k).
+    { intro m0. destruct (g_walk g j + 1 =? 2); cbn; auto. destruct b; reflexivity. }
+    rewrite HE, !walk_fold, !existsb_filter_key. unfold inkeys.
     destruct b; cbn [Bool.eqb andb].
-    + destruct (in_shard (g_walk g) k && existsb (key_eqb k) (g_keys g)); cbn [andb]; auto.
-    + destruct (in_shard (g_walk g) k && existsb (key_eqb k) (g_keys g)); cbn [andb]; auto.
-  - cbn. auto.
+    + destruct (in_shard (g_walk g j) k && existsb (key_eqb k) (g_keys g)); cbn [andb]; auto.
+    + destruct (in_shard (g_walk g j) k && existsb (key_eqb k) (g_keys g)); cbn [andb]; auto.
+  - (* MUnsub *) cbn. repeat split; auto.
+  - unfold frame. cbn. auto.
   - (* MInsLocked *)
     unfold ins_locked. destruct (limit_of c (k_peer k)) as [mx|].
     + destruct (negb (peer_has_prefix g k) && (mx <=? g_ctr g (k_peer k))) eqn:ER.
       * apply andb_true_iff in ER. destruct ER as [ER _]. apply negb_true_iff in ER.
         pose proof (is_new_none g k HD ER) as HN.
-        cbn [set_evs_rib g_subs g_walk g_keys g_rib g_evs]. repeat split; auto; try congruence.
-        intros b q. rewrite fold_b_app, fold_left_app, !fold_two. unfold ribv. rewrite HN.
-           destruct (g_subs g && key_eqb q k); auto. destruct b; auto.
-      * apply ins_accept_effect.
-    + apply ins_accept_effect.
-  - cbn. auto.
+        cbn [with_rib g_ph g_walk g_stale g_ssn g_keys g_rib]. repeat split; auto; try congruence.
+        intros j b q. unfold F. cbn [g_evs with_rib with_evs]. rewrite bcast_fold. destruct (live g j); cbn [andb]; auto.
+        rewrite fold_left_app, !fold_two. unfold ribv. rewrite HN. destruct (key_eqb q k); auto. destruct b; auto.
+      * apply (ins_accept_effect g k tok).
+    + apply (ins_accept_effect g k tok).
+  - unfold frame. cbn. auto.
   - (* MRemLocked *)
-    assert (HR : forall g', (g' = set_evs_rib g (send (g_subs g) [evk false k None; evk true k None]) (g_keys g)
-                                   (upd_rib k None (g_rib g)) (g_ctr g) \/
-                             g' = set_evs_rib g (send (g_subs g) [evk false k None; evk true k None]) (g_keys g)
-                                   (upd_rib k None (g_rib g)) (set_ctr (k_peer k) (g_ctr g (k_peer k) - 1) (g_ctr g))) ->
-                 g_subs g' = g_subs g /\ g_walk g' = g_walk g /\ g_keys g' = g_keys g /\
-                 (forall q, g_rib g' q = if key_eqb q k then None else g_rib g q) /\
-                 forall b q, fold_b b (g_evs g') q = if g_subs g && key_eqb q k then None else fold_b b (g_evs g) q).
-    { intros g' [-> | ->]; cbn [set_evs_rib g_subs g_walk g_keys g_rib g_evs]; repeat split; auto;
-        intros b q; rewrite fold_b_app, fold_two; destruct b; auto. }
+    assert (HR : forall g', (g' = with_rib g (live g) [evk false k None; evk true k None] (g_keys g)
+                                   (upd_rib k None (g_rib g)) (g_ssn g) (g_ctr g) \/
+                             g' = with_rib g (live g) [evk false k None; evk true k None] (g_keys g)
+                                   (upd_rib k None (g_rib g)) (g_ssn g) (set_ctr (k_peer k) (ctr_dec (g_ctr g (k_peer k))) (g_ctr g))) ->
+                 effect g t (MRemLocked k) g').
+    { intros g' [-> | ->]; cbn [effect]; unfold frame; cbn [with_rib g_ph g_walk g_stale g_ssn g_keys g_rib]; repeat split; auto;
+        intros j b q; unfold F; cbn [g_evs with_rib]; rewrite bcast_fold; destruct (live g j); cbn [andb]; auto;
+        rewrite fold_two; destruct (key_eqb q k); auto; destruct b; auto. }
     apply HR. unfold rem_locked.
     destruct (g_rib g k); auto. destruct (limit_of c (k_peer k)); auto.
     destruct (peer_has_prefix _ k); auto.
   - (* MUp *)
-    cbn [with_evs set_evs_rib g_subs g_walk g_keys g_rib g_evs]. repeat split; auto.
-    intros b q. rewrite fold_b_app, send_fold. destruct (g_subs g); auto. destruct b; reflexivity.
-  - cbn. auto.
-  - (* MUnregShard *) unfold unreg_shard. cbn. rewrite app_nil_r. repeat (split; auto).
+    unfold frame. cbn [with_evs with_rib g_ph g_walk g_stale g_ssn g_keys g_rib]. repeat split; auto.
+    intros j b q. unfold F. cbn [g_evs with_rib with_evs]. rewrite bcast_fold. destruct (live g j); auto. destruct b; reflexivity.
+  - unfold frame. cbn. auto.
+  - (* MUnregShard *)
+    unfold purge_shard, frame. cbn [with_rib g_ph g_walk g_stale g_ssn g_keys g_rib]. repeat split; auto.
+    intros j b q. unfold F. cbn [g_evs with_rib with_evs]. rewrite bcast_fold. destruct (live g j); cbn [andb]; auto.
+    rewrite withdraw_fold, existsb_filter_key. unfold inkeys. auto.
   - (* MPeerDown *)
-    cbn [set_evs_rib g_subs g_walk g_keys g_rib g_evs]. repeat split; auto.
-    intros b q. rewrite fold_b_app, send_fold. destruct (g_subs g); cbn [andb fold_left]; auto.
+    unfold frame. cbn [with_rib g_ph g_walk g_stale g_ssn g_keys g_rib]. repeat split; auto.
+    intros j b q. unfold F. cbn [g_evs with_rib with_evs]. rewrite bcast_fold. destruct (live g j); cbn [andb fold_left]; auto.
     rewrite apply_down. auto.
-  - cbn. auto.
+  - (* MStaleShard *)
+    unfold stale_shard. cbn [g_ph g_walk g_stale g_ssn g_keys g_rib g_evs]. repeat split; auto.
+    + intros q H. unfold is_stale in *. cbn [g_stale g_ssn]. rewrite existsb_app, H. apply orb_true_r.
+    + intros q Hp Hs Hr Hk. unfold is_stale. cbn [g_stale g_ssn]. rewrite existsb_app.
+      apply orb_true_iff. left. apply existsb_exists. exists (p, g_ssn g q). split.
+      * apply in_map_iff. exists q. split; auto. apply filter_In. split.
+        -- unfold inkeys in Hk. apply existsb_exists in Hk. destruct Hk as [x [Hx Hk]].
+           apply key_eqb_eq in Hk. subst. auto.
+        -- rewrite Hs. assert (k_peer q =? p = true) as -> by (apply N.eqb_eq; auto).
+           destruct (g_rib g q); [auto|congruence].
+      * cbn [fst snd]. rewrite Hp, !N.eqb_refl. auto.
+  - (* MPeerDownGr *)
+    unfold frame. cbn [with_rib g_ph g_walk g_stale g_ssn g_keys g_rib]. repeat split; auto.
+    intros j b q. unfold F. cbn [g_evs with_rib with_evs]. rewrite bcast_fold. destruct (live g j); cbn [andb fold_left]; auto.
+    rewrite apply_down. auto.
+  - unfold frame. cbn. auto.
+  - (* MPurgeShard *)
+    unfold purge_shard, frame. destruct all; cbn [set_llgr with_rib g_ph g_walk g_stale g_ssn g_keys g_rib]; repeat split; auto;
+    intros j b q; unfold F; cbn [set_llgr g_evs with_rib with_evs]; rewrite bcast_fold; destruct (live g j); cbn [andb]; auto;
+    rewrite withdraw_fold, existsb_filter_key; unfold inkeys; auto.
+  - unfold frame. cbn. auto.
   - (* MResetShard *)
-    unfold reset_shard. cbn [set_evs_rib g_subs g_walk g_keys g_rib g_evs]. repeat split; auto.
-    intros b q. rewrite fold_b_app, send_fold.
-    destruct (g_subs g); cbn [andb]; auto.
+    unfold reset_shard, frame. cbn [with_rib g_ph g_walk g_stale g_ssn g_keys g_rib]. repeat split; auto.
+    intros j b q. unfold F. cbn [g_evs with_rib with_evs]. rewrite bcast_fold.
+    destruct (live g j); cbn [andb]; auto.
     rewrite (flat_map_ext _ (fun k => match (if nonnone (g_rib g k)
-                                             then Some (ribv true (reset_rib (g_rib g) (rejects c (t_pol t) p) p s) k)
+                                             then Some (ribv true (reset_rib g (rejects c (t_pol t) p) p s) k)
                                              else None)
                                       with Some x => [evk true k x] | None => [] end)).
     2:{ intro k. destruct (g_rib g k); auto. }
-    rewrite fold_flat, existsb_filter_key.
+    rewrite fold_flat, existsb_filter_key. unfold inkeys.
     destruct b; cbn [Bool.eqb andb]; auto.
-    destruct ((k_peer q =? p) && in_shard s q); cbn [andb]; auto.
+    destruct (reset_sel g p s q); cbn [andb]; auto.
     destruct (existsb (key_eqb q) (g_keys g)); cbn [andb]; auto.
     destruct (nonnone (g_rib g q)); auto.
-  - cbn. auto.
+  - unfold frame. cbn. auto.
+  - unfold frame. cbn. auto.
+  - unfold frame. cbn. auto.
 Qed.
 
-(* ---- one step preserves the invariant *)
+(* ---- generic consequences of an effect *)
+Definition ph_after (g : glob) (m : mstep) : nat -> N :=
+  match m with
+  | MSubReg j0 => if g_ph g j0 =? 0 then upd_nat j0 1 (g_ph g) else g_ph g
+  | MUnsub j0 => upd_nat j0 2 (g_ph g)
+  | _ => g_ph g
+  end.
+Lemma eff_ph g t m g' : effect g t m g' -> g_ph g' = ph_after g m.
+Proof. intro H. destruct m; cbn [effect ph_after] in *; unfold frame in *; intuition. Qed.
+
+Lemma eff_walk g t m g' : effect g t m g' ->
+  g_walk g' = match m with MWalk j0 => upd_nat j0 (g_walk g j0 + 1) (g_walk g) | _ => g_walk g end.
+Proof. intro H. destruct m; cbn [effect] in *; unfold frame in *; intuition. Qed.
+
+Lemma eff_F_dead g t m g' j : effect g t m g' -> live g j = false -> m <> MWalk j ->
+  forall b k, F g' j b k = F g j b k.
+Proof.
+  intros H HL Hm b k.
+  destruct m; cbn [effect] in H; unfold frame in H;
+    try (unfold F; assert (HV : g_evs g' = g_evs g) by intuition; rewrite HV; reflexivity);
+    try (assert (HH : forall j b k, F g' j b k = F g j b k) by intuition; apply HH).
+  - destruct H as [_ [_ [_ [_ [_ [_ H]]]]]]. rewrite H.
+    destruct (Nat.eqb j j0) eqn:E; cbn [andb]; auto. apply Nat.eqb_eq in E. subst. congruence.
+  - destruct H as [_ [_ [_ [_ [_ [_ [_ [_ H]]]]]]]]. rewrite H, HL. auto.
+  - destruct H as [_ [_ [_ H]]]. rewrite H, HL. auto.
+  - destruct H as [_ [_ [_ H]]]. rewrite H, HL. auto.
+  - destruct H as [_ [_ [_ H]]]. rewrite H, HL. auto.
+  - destruct H as [_ [_ [_ H]]]. rewrite H, HL. auto.
+  - destruct H as [_ [_ [_ H]]]. rewrite H, HL. auto.
+  - destruct H as [_ [_ [_ H]]]. rewrite H, HL. auto.
+Qed.
+
+Lemma eff_keys g t m g' k : effect g t m g' -> In k (g_keys g) -> In k (g_keys g').
+Proof.
+  intros H Hk. destruct m; cbn [effect] in *; unfold frame in *;
+    try (assert (HK : g_keys g' = g_keys g) by intuition; rewrite HK; exact Hk).
+  destruct H as [_ [_ [_ [_ [H _]]]]]. auto.
+Qed.
+
+(* the rib entry of a key can only appear through an insert of that key *)
+Lemma eff_rib_some g t m g' k : effect g t m g' -> g_rib g' k <> None ->
+  g_rib g k <> None \/ exists tok, m = MInsLocked k tok.
+Proof.
+  intros H Hk. destruct m; cbn [effect] in *; unfold frame in *;
+    try (assert (HR : g_rib g' = g_rib g) by intuition; rewrite HR in Hk; left; exact Hk).
+  - destruct H as [_ [_ [_ [_ [_ [_ [H7 _]]]]]]].
+    destruct (key_eqb k k0) eqn:E.
+    + apply key_eqb_eq in E. subst. right. eauto.
+    + left. rewrite <- H7; auto. intro; subst. rewrite key_eqb_refl in E. discriminate.
+  - destruct H as [_ [_ [H _]]]. rewrite H in Hk. destruct (key_eqb k k0); [congruence|auto].
+  - destruct H as [_ [_ [H _]]]. rewrite H in Hk. destruct (purge_sel g PAll p s k); [congruence|auto].
+  - destruct H as [_ [_ [H _]]]. rewrite H in Hk. destruct (purge_sel g all p s k); [congruence|auto].
+  - destruct H as [_ [_ [H _]]]. rewrite H in Hk. unfold reset_rib in Hk.
+    destruct (reset_sel g p s k); auto. destruct (g_rib g k); [left; congruence|congruence].
+Qed.
+
+Lemma eff_rib_none g t m g' k : effect g t m g' -> g_rib g k = None ->
+  (forall tok, m <> MInsLocked k tok) -> g_rib g' k = None.
+Proof.
+  intros H Hk Hm. destruct (g_rib g' k) eqn:E; auto. exfalso.
+  assert (HN : g_rib g' k <> None) by congruence.
+  destruct (eff_rib_some g t m g' k H HN) as [HH|[tok HH]]; [congruence | exact (Hm tok HH)].
+Qed.
+
+Lemma eff_stale g t m g' k : effect g t m g' -> (forall tok, m <> MInsLocked k tok) ->
+  is_stale g k = true -> is_stale g' k = true.
+Proof.
+  intros H Hm Hs.
+  assert (HF : g_stale g' = g_stale g -> g_ssn g' k = g_ssn g k -> is_stale g' k = true).
+  { intros H1 H2. unfold is_stale in *. rewrite H1, H2. auto. }
+  destruct m; cbn [effect] in *; unfold frame in *; try (apply HF; intuition congruence).
+  - destruct H as [_ [_ [H3 [H4 _]]]]. apply HF; auto. apply H4. intro; subst. eapply Hm; eauto.
+  - destruct H as [_ [_ [_ [_ [_ [_ [H _]]]]]]]. auto.
+Qed.
+
+Lemma eff_stale_back g t m g' k : effect g t m g' -> (forall p s, m <> MStaleShard p s) ->
+  (forall tok, m <> MInsLocked k tok) -> is_stale g' k = is_stale g k.
+Proof.
+  intros H Hm Hi.
+  assert (HF : g_stale g' = g_stale g -> g_ssn g' k = g_ssn g k -> is_stale g' k = is_stale g k).
+  { intros H1 H2. unfold is_stale. rewrite H1, H2. auto. }
+  destruct m; cbn [effect] in *; unfold frame in *; try (apply HF; intuition congruence).
+  - destruct H as [_ [_ [H3 [H4 _]]]]. apply HF; auto. apply H4. intro; subst. eapply Hi; eauto.
+  - exfalso. eapply Hm; eauto.
+Qed.
+
+(* ---- shapes of the operation in progress *)
+Ltac shape_tac H pre :=
+  repeat (destruct pre as [|? pre]; cbn [app] in H; try discriminate H; try (inversion H; subst; cbn; auto; fail)).
 Lemma shape_unreg1 o pre m p : expand o = pre ++ m :: [MUnregShard p 1; MPeerDown p] -> m = MUnregShard p 0.
-Proof.
-  destruct o; cbn [expand]; intro H;
-    repeat (destruct pre as [|? pre]; cbn [app] in H; try discriminate H; try (inversion H; subst; auto; fail)).
-Qed.
+Proof. destruct o; cbn [expand]; intro H; shape_tac H pre. Qed.
 Lemma shape_pd o pre m p : expand o = pre ++ m :: [MPeerDown p] -> m = MUnregShard p 1.
-Proof.
-  destruct o; cbn [expand]; intro H;
-    repeat (destruct pre as [|? pre]; cbn [app] in H; try discriminate H; try (inversion H; subst; auto; fail)).
-Qed.
+Proof. destruct o; cbn [expand]; intro H; shape_tac H pre. Qed.
+Lemma shape_stale1 o pre m p : expand o = pre ++ m :: [MStaleShard p 1; MPeerDownGr p] -> m = MStaleShard p 0.
+Proof. destruct o; cbn [expand]; intro H; shape_tac H pre. Qed.
+Lemma shape_pdgr o pre m p : expand o = pre ++ m :: [MPeerDownGr p] -> m = MStaleShard p 1.
+Proof. destruct o; cbn [expand]; intro H; shape_tac H pre. Qed.
+Lemma shape_pd_last o pre p r : expand o = pre ++ MPeerDown p :: r -> r = [].
+Proof. destruct o; cbn [expand]; intro H; shape_tac H pre. Qed.
+Lemma shape_pdgr_last o pre p r : expand o = pre ++ MPeerDownGr p :: r -> r = [].
+Proof. destruct o; cbn [expand]; intro H; shape_tac H pre. Qed.
+Lemma no_expand_pd o p r : expand o = MPeerDown p :: r -> False.
+Proof. destruct o; discriminate. Qed.
+Lemma no_expand_pdgr o p r : expand o = MPeerDownGr p :: r -> False.
+Proof. destruct o; discriminate. Qed.
 
 Record ctx (s : sys) (i : nat) (m : mstep) (t1 t2 : thread) (g' : glob) : Prop := {
   c_inv : Inv s;
@@ -401,15 +557,6 @@ Proof.
   apply Nat.eqb_eq in E. subst. rewrite (c_steps _ _ _ _ _ _ C). cbn. auto.
 Qed.
 
-Lemma ex_mono p : exempt s' p -> exempt s p.
-Proof. intros [j H]. exists j. apply steps_sub. auto. Qed.
-
-Lemma ex_keep p : exempt s p -> m <> MPeerDown p -> exempt s' p.
-Proof.
-  intros [j H] Hm. exists j. rewrite steps'. destruct (Nat.eqb j i) eqn:E; auto.
-  apply Nat.eqb_eq in E. subst. rewrite (c_steps _ _ _ _ _ _ C) in H. destruct H as [H|H]; auto. congruence.
-Qed.
-
 Lemma own' : forall a b p, a <> b -> owns_any p (steps (s_thr s' a)) -> owns_any p (steps (s_thr s' b)) -> False.
 Proof.
   intros a b p Hab [x [Hx Ox]] [y [Hy Oy]]. apply (i_own s (c_inv _ _ _ _ _ _ C) a b p Hab).
@@ -425,81 +572,85 @@ Proof.
 Qed.
 End Step.
 
-Definition subs_after (s : sys) (m : mstep) : bool := match m with MSubReg => true | _ => g_subs (s_g s) end.
-
-Lemma subs'_eq s i m t1 t2 g' : ctx s i m t1 t2 g' -> g_subs g' = subs_after s m.
-Proof. intros [_ _ _ _ _ _ _ HE]. unfold subs_after. destruct m; cbn [effect] in HE; intuition. Qed.
-
-Lemma wok' s i m t1 t2 g' j : ctx s i m t1 t2 g' ->
-  wok (g_subs g') (steps (s_thr (after s i t2 g') j)) = true.
+Lemma ph_after_zero g m j : ph_after g m j = 0 -> g_ph g j = 0 /\ m <> MSubReg j.
 Proof.
-  intro C. rewrite (subs'_eq _ _ _ _ _ _ C), (steps' _ _ _ _ _ _ C).
+  destruct m; cbn [ph_after]; intro H; try (split; [exact H|discriminate]).
+  - destruct (g_ph g j0 =? 0) eqn:E.
+    + unfold upd_nat in H. destruct (Nat.eqb j j0) eqn:EJ; [discriminate|].
+      split; auto. intro HH. inversion HH. subst. rewrite Nat.eqb_refl in EJ. discriminate.
+    + split; auto. intro HH. inversion HH. subst. rewrite H in E. discriminate.
+  - unfold upd_nat in H. destruct (Nat.eqb j j0); [discriminate|]. split; auto. discriminate.
+Qed.
+
+Lemma reg_mono g m j : negb (g_ph g j =? 0) = true -> negb (ph_after g m j =? 0) = true.
+Proof.
+  intro H. destruct (ph_after g m j =? 0) eqn:E; auto. apply N.eqb_eq in E.
+  apply ph_after_zero in E. destruct E as [E _]. rewrite E in H. discriminate.
+Qed.
+
+Lemma wok' s i m t1 t2 g' i' j : ctx s i m t1 t2 g' ->
+  wok j (negb (g_ph g' j =? 0)) (steps (s_thr (after s i t2 g') i')) = true.
+Proof.
+  intro C. rewrite (eff_ph _ _ _ _ (c_eff _ _ _ _ _ _ C)), (steps' _ _ _ _ _ _ C).
   pose proof (i_wok s (c_inv _ _ _ _ _ _ C)) as HW.
-  destruct (Nat.eqb j i) eqn:E.
-  - specialize (HW i). rewrite (c_steps _ _ _ _ _ _ C) in HW. unfold subs_after.
-    destruct m; cbn [wok] in HW; auto. apply andb_true_iff in HW. tauto.
-  - specialize (HW j). unfold subs_after. destruct m; auto. eapply wok_mono; eauto.
+  assert (HG : forall l, wok j (negb (g_ph (s_g s) j =? 0)) l = true ->
+                         wok j (negb (ph_after (s_g s) m j =? 0)) l = true).
+  { intros l Hl. destruct (negb (g_ph (s_g s) j =? 0)) eqn:ER.
+    - rewrite reg_mono; auto.
+    - destruct (negb (ph_after (s_g s) m j =? 0)); auto. eapply wok_mono; eauto. }
+  destruct (Nat.eqb i' i) eqn:E.
+  - specialize (HW i j). rewrite (c_steps _ _ _ _ _ _ C) in HW.
+    destruct m; cbn [wok] in HW; try (apply HG; exact HW).
+    + (* MSubReg j0 *)
+      cbn [ph_after]. destruct (Nat.eqb j0 j) eqn:EJ.
+      * apply Nat.eqb_eq in EJ. subst j0. rewrite orb_true_r in HW.
+        destruct (g_ph (s_g s) j =? 0) eqn:EP.
+        -- unfold upd_nat. rewrite Nat.eqb_refl. cbn. exact HW.
+        -- rewrite EP. cbn. exact HW.
+      * rewrite orb_false_r in HW.
+        assert (HE : (if g_ph (s_g s) j0 =? 0 then upd_nat j0 1 (g_ph (s_g s)) else g_ph (s_g s)) j = g_ph (s_g s) j).
+        { destruct (g_ph (s_g s) j0 =? 0); auto. unfold upd_nat. rewrite Nat.eqb_sym, EJ. auto. }
+        rewrite HE. exact HW.
+    + (* MWalk *) apply andb_true_iff in HW. apply HG. tauto.
+  - apply HG. apply HW.
 Qed.
 
-Lemma walk_needs_subs s i t1 t2 g' : ctx s i MWalk t1 t2 g' -> g_subs (s_g s) = true.
+Lemma walk_needs_reg s i j t1 t2 g' : ctx s i (MWalk j) t1 t2 g' -> g_ph (s_g s) j <> 0.
 Proof.
-  intro C. pose proof (i_wok s (c_inv _ _ _ _ _ _ C) i) as HW.
-  rewrite (c_steps _ _ _ _ _ _ C) in HW. cbn [wok] in HW. apply andb_true_iff in HW. tauto.
+  intro C. pose proof (i_wok s (c_inv _ _ _ _ _ _ C) i j) as HW.
+  rewrite (c_steps _ _ _ _ _ _ C) in HW. cbn [wok] in HW. rewrite Nat.eqb_refl in HW. cbn [negb orb] in HW.
+  apply andb_true_iff in HW. destruct HW as [HW _]. intro H. rewrite H in HW. discriminate.
 Qed.
 
-Lemma pre' s i m t1 t2 g' : ctx s i m t1 t2 g' ->
-  g_subs g' = false -> (forall b k, fold_b b (g_evs g') k = None) /\ g_walk g' = 0.
+Lemma live_false g j : g_ph g j = 0 -> live g j = false.
+Proof. unfold live. intros ->. reflexivity. Qed.
+
+Lemma pre' s i m t1 t2 g' : ctx s i m t1 t2 g' -> forall j,
+  g_ph g' j = 0 -> (forall b k, fold_b b (g_evs g' j) k = None) /\ g_walk g' j = 0.
 Proof.
-  intros C. rewrite (subs'_eq _ _ _ _ _ _ C). unfold subs_after. intro Hs.
-  assert (Hs0 : g_subs (s_g s) = false) by (destruct m; auto; discriminate).
-  destruct (i_pre s (c_inv _ _ _ _ _ _ C) Hs0) as [He Hw].
+  intros C j. rewrite (eff_ph _ _ _ _ (c_eff _ _ _ _ _ _ C)). intro H0.
+  apply ph_after_zero in H0. destruct H0 as [H0 Hm].
+  destruct (i_pre s (c_inv _ _ _ _ _ _ C) j H0) as [He Hw].
   pose proof (c_eff _ _ _ _ _ _ C) as HE.
-  destruct m; cbn [effect] in HE; try discriminate.
-  - rewrite (walk_needs_subs _ _ _ _ _ C) in Hs0. discriminate.
-  - destruct HE as [_ [H2 [_ [_ H5]]]]. split; [|congruence]. intros b q. rewrite H5. auto.
-  - destruct HE as [_ [H2 [_ [_ [_ [_ H5]]]]]]. split; [|congruence]. intros b q. rewrite H5, Hs0; cbn [andb]; auto.
-  - destruct HE as [_ [H2 [_ [_ H5]]]]. split; [|congruence]. intros b q. rewrite H5. auto.
-  - destruct HE as [_ [H2 [_ [_ H5]]]]. split; [|congruence]. intros b q. rewrite H5, Hs0; cbn [andb]; auto.
-  - destruct HE as [_ [H2 [_ [_ H5]]]]. split; [|congruence]. intros b q. rewrite H5. auto.
-  - destruct HE as [_ [H2 [_ [_ H5]]]]. split; [|congruence]. intros b q. rewrite H5. auto.
-  - destruct HE as [_ [H2 [_ [H4 _]]]]. split; [|congruence]. intros b q. rewrite H4. auto.
-  - destruct HE as [_ [H2 [_ [_ H5]]]]. split; [|congruence]. intros b q. rewrite H5, Hs0; cbn [andb]; auto.
-  - destruct HE as [_ [H2 [_ [_ H5]]]]. split; [|congruence]. intros b q. rewrite H5. auto.
-  - destruct HE as [_ [H2 [_ [_ H5]]]]. split; [|congruence]. intros b q. rewrite H5, Hs0; cbn [andb]; auto.
-  - destruct HE as [_ [H2 [_ [_ H5]]]]. split; [|congruence]. intros b q. rewrite H5. auto.
+  assert (HN : m <> MWalk j).
+  { intro HH. subst m. apply (walk_needs_reg _ _ _ _ _ _ C). exact H0. }
+  split.
+  - intros b k. change (F g' j b k = None). rewrite (eff_F_dead _ _ _ _ j HE (live_false _ _ H0) HN). apply He.
+  - rewrite (eff_walk _ _ _ _ HE). destruct m; auto.
+    unfold upd_nat. destruct (Nat.eqb j j0) eqn:EJ; auto. apply Nat.eqb_eq in EJ. subst. congruence.
 Qed.
-
 
 Lemma dom' s i m t1 t2 g' : ctx s i m t1 t2 g' -> forall k, g_rib g' k <> None -> In k (g_keys g').
 Proof.
-  intros C k Hk. pose proof (i_dom s (c_inv _ _ _ _ _ _ C)) as HD.
-  pose proof (c_eff _ _ _ _ _ _ C) as HE.
-  destruct m; cbn [effect] in HE.
-  - destruct HE as [_ [H2 [H3 _]]]. rewrite H2. apply HD. congruence.
-  - destruct HE as [_ [H2 [H3 _]]]. rewrite H2. apply HD. congruence.
-  - destruct HE as [_ [_ [H2 [H3 _]]]]. rewrite H2. apply HD. congruence.
-  - destruct HE as [_ [_ [H3 [H4 [H5 _]]]]].
-    destruct (key_eqb k k0) eqn:E.
-    + apply key_eqb_eq in E. subst. auto.
-    + apply H3. apply HD. rewrite <- H5; auto. intro HH. subst. rewrite key_eqb_refl in E. discriminate.
-  - destruct HE as [_ [_ [H2 [H3 _]]]]. rewrite H2. apply HD. congruence.
-  - destruct HE as [_ [_ [H2 [H3 _]]]]. rewrite H2. apply HD. rewrite H3 in Hk.
-    destruct (key_eqb k k0); congruence.
-  - destruct HE as [_ [_ [H2 [H3 _]]]]. rewrite H2. apply HD. congruence.
-  - destruct HE as [_ [_ [H2 [H3 _]]]]. rewrite H2. apply HD. congruence.
-  - destruct HE as [_ [_ [H2 [_ H3]]]]. rewrite H2. apply HD. rewrite H3 in Hk.
-    destruct ((k_peer k =? p) && in_shard s0 k); congruence.
-  - destruct HE as [_ [_ [H2 [H3 _]]]]. rewrite H2. apply HD. congruence.
-  - destruct HE as [_ [_ [H2 [H3 _]]]]. rewrite H2. apply HD. congruence.
-  - destruct HE as [_ [_ [H2 [H3 _]]]]. rewrite H2. apply HD. rewrite H3 in Hk. unfold reset_rib in Hk.
-    destruct ((k_peer k =? p) && in_shard s0 k); auto. destruct (g_rib (s_g s) k); congruence.
-  - destruct HE as [_ [_ [H2 [H3 _]]]]. rewrite H2. apply HD. congruence.
+  intros C k Hk. pose proof (c_eff _ _ _ _ _ _ C) as HE.
+  destruct (eff_rib_some _ _ _ _ k HE Hk) as [H|[tok H]].
+  - eapply eff_keys; eauto. apply (i_dom s (c_inv _ _ _ _ _ _ C)). auto.
+  - subst m. cbn [effect] in HE. destruct HE as [_ [_ [_ [_ [_ [H6 _]]]]]]. auto.
 Qed.
 
-Lemma A_keep w phi rho (rn ex : Prop) sh phi' rho' (rn' ex' : Prop) :
-  phi' = phi -> rho' = rho -> (rn -> rn') -> (ex -> ex') ->
-  A w phi rho rn ex sh -> A w phi' rho' rn' ex' sh.
-Proof. intros -> -> H1 H2 [H|[H|[H3 H4]]]; [left|right; left|right; right]; auto. Qed.
+Lemma A_keep w phi rho (st : Prop) sh phi' rho' (st' : Prop) :
+  phi' = phi -> rho' = rho -> (st -> st') -> A w phi rho st sh -> A w phi' rho' st' sh.
+Proof. intros -> -> H1 [H|[H|[H3 H4]]]; [left|right; left|right; right]; auto. Qed.
 
 Lemma ribv_ext b (r r' : key -> option (N * bool)) k : r' k = r k -> ribv b r' k = ribv b r k.
 Proof. unfold ribv. intros ->. auto. Qed.
@@ -507,217 +658,258 @@ Proof. unfold ribv. intros ->. auto. Qed.
 Lemma ribv_none b (r : key -> option (N * bool)) k : r k = None -> ribv b r k = None.
 Proof. unfold ribv. intros ->. auto. Qed.
 
-Lemma shape_unreg_pd o pre p x r : expand o = pre ++ MUnregShard p x :: r -> In (MPeerDown p) r.
-Proof.
-  destruct o; cbn [expand]; intro H;
-    repeat (destruct pre as [|? pre]; cbn [app] in H; try discriminate H;
-            try (inversion H; subst; cbn; auto; fail)).
-Qed.
-
-Lemma shape_pd_last o pre p r : expand o = pre ++ MPeerDown p :: r -> r = [].
-Proof.
-  destruct o; cbn [expand]; intro H;
-    repeat (destruct pre as [|? pre]; cbn [app] in H; try discriminate H;
-            try (inversion H; subst; cbn; auto; fail)).
-Qed.
-
-Lemma no_expand_pd o p r : expand o = MPeerDown p :: r -> False.
-Proof. destruct o; discriminate. Qed.
-
 Lemma in_shard_eq x k : in_shard x k = true <-> shard_of k = x.
 Proof. unfold in_shard. apply N.eqb_eq. Qed.
 
-Lemma existsb_key_in k ks : In k ks -> existsb (key_eqb k) ks = true.
+Lemma inkeys_in g k : In k (g_keys g) -> inkeys g k = true.
 Proof. intro H. apply existsb_exists. exists k. split; auto. apply key_eqb_refl. Qed.
 
-Lemma key' s i m t1 t2 g' : ctx s i m t1 t2 g' -> forall b k,
-  A (g_walk g') (fold_b b (g_evs g') k) (ribv b (g_rib g') k) (g_rib g' k = None)
-    (exempt (after s i t2 g') (k_peer k)) (shard_of k).
+Lemma live_iff g j : live g j = true <-> g_ph g j = 1.
+Proof. unfold live. apply N.eqb_eq. Qed.
+
+Lemma staleK_keep g t m g' k : effect g t m g' ->
+  (forall tok, m <> MInsLocked k tok) -> g_rib g' k = g_rib g k -> staleK g k -> staleK g' k.
+Proof. intros HE Hm Hr [H1 H2]. split. congruence. eapply eff_stale; eauto. Qed.
+
+Lemma staleK_frame g g' k :
+  g_rib g' = g_rib g -> g_stale g' = g_stale g -> g_ssn g' = g_ssn g -> staleK g k -> staleK g' k.
+Proof. intros H1 H2 H3 [X Y]. split. congruence. unfold is_stale in *. rewrite H2, H3. auto. Qed.
+
+Lemma key' s i m t1 t2 g' : ctx s i m t1 t2 g' -> forall j b k, g_ph g' j = 1 ->
+  A (g_walk g' j) (fold_b b (g_evs g' j) k) (ribv b (g_rib g') k) (staleK g' k) (shard_of k).
 Proof.
-  intros C b k. pose proof (c_inv _ _ _ _ _ _ C) as HI.
-  pose proof (i_key s HI b k) as HA. pose proof (c_eff _ _ _ _ _ _ C) as HE.
-  pose proof (ex_keep _ _ _ _ _ _ C (k_peer k)) as HX.
-  destruct m; cbn [effect] in HE.
+  intros C j b k HP. pose proof (c_inv _ _ _ _ _ _ C) as HI. pose proof (c_eff _ _ _ _ _ _ C) as HE.
+  change (fold_b b (g_evs g' j) k) with (F g' j b k).
+  (* a subscription that has just registered holds nothing and has walked nothing *)
+  destruct (N.eq_dec (g_ph (s_g s) j) 1) as [HL|HL].
+  2:{ rewrite (eff_ph _ _ _ _ HE) in HP.
+      assert (H0 : g_ph (s_g s) j = 0 /\ m = MSubReg j).
+      { destruct m; cbn [ph_after] in HP; try congruence.
+        - destruct (g_ph (s_g s) j0 =? 0) eqn:E; try congruence. unfold upd_nat in HP.
+          destruct (Nat.eqb j j0) eqn:EJ; try congruence. apply Nat.eqb_eq in EJ. subst.
+          apply N.eqb_eq in E. auto.
+        - unfold upd_nat in HP. destruct (Nat.eqb j j0); congruence. }
+      destruct H0 as [H0 ->]. destruct (i_pre s HI j H0) as [HF HW].
+      cbn [effect] in HE. destruct HE as [_ [H2 [_ [_ [_ [_ H7]]]]]].
+      right; left. unfold F. rewrite H2, H7, HW, HF. split; auto. lia. }
+  pose proof (i_key s HI j b k HL) as HA. change (fold_b b (g_evs (s_g s) j) k) with (F (s_g s) j b k) in HA.
+  assert (HLv : live (s_g s) j = true) by (apply live_iff; auto).
+  destruct m; cbn [effect] in HE; unfold frame in HE.
   - (* MSubReg *)
-    destruct HE as [_ [_ [H3 [H4 H5]]]]. rewrite H3, H4, H5.
-    eapply A_keep; try exact HA; auto; try (intro; apply HX; auto; discriminate).
-  - (* MWalk *)
-    destruct HE as [_ [_ [H3 [H4 H5]]]]. rewrite H3, H4, H5.
-    assert (HX' : exempt s (k_peer k) -> exempt (after s i t2 g') (k_peer k)) by (intro; apply HX; auto; discriminate).
-    destruct (in_shard (g_walk (s_g s)) k) eqn:ES; cbn [andb].
+    destruct HE as [_ [H2 [H3 [H4 [_ [H6 H7]]]]]]. unfold F. rewrite H2, H6, H7.
+    eapply A_keep; try exact HA; auto. apply staleK_frame; auto.
+  - (* MWalk j0 *)
+    destruct HE as [_ [H2 [H3 [H4 [_ [H6 H7]]]]]]. rewrite H2, H6, H7.
+    assert (HS : staleK (s_g s) k -> staleK g' k).
+    { intros [X Y]. split. congruence. unfold is_stale in *. rewrite H3, H4. auto. }
+    unfold upd_nat. destruct (Nat.eqb j j0) eqn:EJ; cbn [andb].
+    2:{ eapply A_keep; try exact HA; auto. }
+    apply Nat.eqb_eq in EJ. subst j0.
+    destruct (in_shard (g_walk (s_g s) j) k) eqn:ES; cbn [andb].
     + apply in_shard_eq in ES.
       destruct (ribv b (g_rib (s_g s)) k) as [x|] eqn:ER.
       * assert (In k (g_keys (s_g s))).
         { apply (i_dom s HI). unfold ribv in ER. destruct (g_rib (s_g s) k); congruence. }
-        rewrite existsb_key_in by auto. cbn. left. auto.
-      * rewrite andb_false_r. destruct HA as [HA|[[_ HA]|[H1 H2]]].
+        rewrite inkeys_in by auto. cbn. left. auto.
+      * rewrite andb_false_r. destruct HA as [HA|[[_ HA]|[H1 H2']]].
         -- left. auto.
         -- left. auto.
         -- right; right. auto.
-    + destruct HA as [HA|[[HA1 HA2]|[H1 H2]]].
+    + destruct HA as [HA|[[HA1 HA2]|[H1 H2']]].
       * left; auto.
       * right; left. split; auto. apply N.eqb_neq in ES. unfold in_shard in ES. lia.
       * right; right; auto.
+  - (* MUnsub *)
+    destruct HE as [_ [H2 [H3 [H4 [_ [H6 H7]]]]]]. unfold F. rewrite H2, H6, H7.
+    eapply A_keep; try exact HA; auto. apply staleK_frame; auto.
   - (* MInsPrep *)
-    destruct HE as [_ [H2 [_ [H4 H5]]]]. rewrite H2, H4, H5.
-    eapply A_keep; try exact HA; auto; try (intro; apply HX; auto; discriminate).
+    destruct HE as [[_ [H2 [H3 H4]]] [_ [H6 H7]]]. rewrite H2, H6, H7.
+    eapply A_keep; try exact HA; auto. apply staleK_frame; auto.
   - (* MInsLocked *)
-    destruct HE as [_ [H2 [_ [_ [H5 [H6 H7]]]]]]. rewrite H2, H7.
+    destruct HE as [_ [H2 [H3 [H4 [_ [_ [H7 [_ H9]]]]]]]]. rewrite H2, H9, HLv. cbn [andb].
     destruct (key_eqb k k0) eqn:EK.
-    + apply key_eqb_eq in EK. subst k0.
-      destruct (g_subs (s_g s)) eqn:ESub; cbn [andb].
-      * left. auto.
-      * destruct (i_pre s HI ESub) as [HF HW]. right; left. rewrite HF, HW. split; auto. lia.
-    + rewrite andb_false_r.
-      assert (HN : k <> k0) by (intro; subst; rewrite key_eqb_refl in EK; discriminate).
+    + apply key_eqb_eq in EK. subst k0. left. auto.
+    + assert (HN : k <> k0) by (intro; subst; rewrite key_eqb_refl in EK; discriminate).
       eapply A_keep; try exact HA; auto.
       * apply ribv_ext. auto.
-      * rewrite H5; auto.
-      * intro; apply HX; auto; discriminate.
+      * intros [X Y]. split. rewrite H7; auto. unfold is_stale in *. rewrite H3, H4; auto.
   - (* MRemPrep *)
-    destruct HE as [_ [H2 [_ [H4 H5]]]]. rewrite H2, H4, H5.
-    eapply A_keep; try exact HA; auto; try (intro; apply HX; auto; discriminate).
+    destruct HE as [[_ [H2 [H3 H4]]] [_ [H6 H7]]]. rewrite H2, H6, H7.
+    eapply A_keep; try exact HA; auto. apply staleK_frame; auto.
   - (* MRemLocked *)
-    destruct HE as [_ [H2 [_ [H4 H5]]]]. rewrite H2, H5.
+    destruct HE as [[_ [H2 [H3 H4]]] [_ [H6 H7]]]. rewrite H2, H7, HLv. cbn [andb].
     destruct (key_eqb k k0) eqn:EK.
-    + destruct (g_subs (s_g s)) eqn:ESub; cbn [andb].
-      * left. rewrite ribv_none; auto. rewrite H4, EK. auto.
-      * destruct (i_pre s HI ESub) as [HF HW]. right; left. rewrite HF, HW. split; auto. lia.
-    + rewrite andb_false_r. eapply A_keep; try exact HA; auto.
-      * apply ribv_ext. rewrite H4, EK. auto.
-      * rewrite H4, EK. auto.
-      * intro; apply HX; auto; discriminate.
-  - (* MUp *)
-    destruct HE as [_ [H2 [_ [H4 H5]]]]. rewrite H2, H4, H5.
-    eapply A_keep; try exact HA; auto; try (intro; apply HX; auto; discriminate).
-  - (* MUnregPrep *)
-    destruct HE as [_ [H2 [_ [H4 H5]]]]. rewrite H2, H4, H5.
-    eapply A_keep; try exact HA; auto; try (intro; apply HX; auto; discriminate).
-  - (* MUnregShard *)
-    destruct HE as [_ [H2 [_ [H4 H5]]]]. rewrite H2, H4.
-    destruct ((k_peer k =? p) && in_shard s0 k) eqn:EA.
-    + right; right. split. rewrite H5, EA. auto.
-      apply andb_true_iff in EA. destruct EA as [EA _]. apply N.eqb_eq in EA. rewrite EA.
-      exists i. rewrite (steps' _ _ _ _ _ _ C), Nat.eqb_refl. unfold steps. apply in_or_app. left.
-      destruct (c_shape _ _ _ _ _ _ C) as [o [pre HS]]. eapply shape_unreg_pd; eauto.
+    + left. rewrite ribv_none; auto. rewrite H6, EK. auto.
     + eapply A_keep; try exact HA; auto.
-      * apply ribv_ext. rewrite H5, EA. auto.
-      * rewrite H5, EA. auto.
-      * intro; apply HX; auto; discriminate.
+      * apply ribv_ext. rewrite H6, EK. auto.
+      * intros [X Y]. split. rewrite H6, EK. auto. unfold is_stale in *. rewrite H3, H4. auto.
+  - (* MUp *)
+    destruct HE as [[_ [H2 [H3 H4]]] [_ [H6 H7]]]. rewrite H2, H6, H7.
+    eapply A_keep; try exact HA; auto. apply staleK_frame; auto.
+  - (* MUnregPrep *)
+    destruct HE as [[_ [H2 [H3 H4]]] [_ [H6 H7]]]. rewrite H2, H6, H7.
+    eapply A_keep; try exact HA; auto. apply staleK_frame; auto.
+  - (* MUnregShard *)
+    destruct HE as [[_ [H2 [H3 H4]]] [_ [H6 H7]]]. rewrite H2, H7, HLv. cbn [andb].
+    destruct (purge_sel (s_g s) PAll p s0 k) eqn:EA; cbn [andb].
+    + destruct (g_rib (s_g s) k) eqn:ER; cbn [nonnone andb].
+      * rewrite inkeys_in by (apply (i_dom s HI); congruence). left. rewrite ribv_none; auto. rewrite H6, EA. auto.
+      * eapply A_keep; try exact HA; auto.
+        -- apply ribv_ext. rewrite H6, EA. auto.
+        -- intros [X Y]. congruence.
+    + eapply A_keep; try exact HA; auto.
+      * apply ribv_ext. rewrite H6, EA. auto.
+      * intros [X Y]. split. rewrite H6, EA. auto. unfold is_stale in *. rewrite H3, H4. auto.
   - (* MPeerDown *)
-    destruct HE as [_ [H2 [_ [H4 H5]]]]. rewrite H2, H4, H5.
+    destruct HE as [[_ [H2 [H3 H4]]] [_ [H6 H7]]]. rewrite H2, H6, H7, HLv. cbn [andb].
     destruct (k_peer k =? p) eqn:EP.
     + apply N.eqb_eq in EP.
       assert (HR : g_rib (s_g s) k = None).
       { destruct (c_before _ _ _ _ _ _ C) as [HB|[_ [o HB]]].
         - destruct (c_shape _ _ _ _ _ _ C) as [o [pre HS]]. apply shape_pd_last in HS.
-          rewrite HS in HB. apply (proj2 (i_drop s HI i p) HB). auto.
+          rewrite HS in HB. destruct (i_drop s HI i p) as [_ [HD _]]. apply (HD HB). auto.
         - exfalso. eapply no_expand_pd; eauto. }
-      left. rewrite (ribv_none b _ k HR).
-      destruct (g_subs (s_g s)) eqn:ESub; cbn [andb]; auto.
-      destruct (i_pre s HI ESub) as [HF _]. auto.
-    + rewrite andb_false_r. eapply A_keep; try exact HA; auto.
-      intro; apply HX; auto. intro HH. inversion HH. subst. rewrite N.eqb_refl in EP. discriminate.
+      left. rewrite (ribv_none b _ k HR). auto.
+    + eapply A_keep; try exact HA; auto. apply staleK_frame; auto.
+  - (* MStaleShard *)
+    destruct HE as [_ [H2 [H3 [_ [H5 [H6 [H7 _]]]]]]]. unfold F. rewrite H2, H5, H6.
+    eapply A_keep; try exact HA; auto. intros [X Y]. split; [congruence | auto].
+  - (* MPeerDownGr *)
+    destruct HE as [[_ [H2 [H3 H4]]] [_ [H6 H7]]]. rewrite H2, H6, H7, HLv. cbn [andb].
+    assert (HST : forall q, is_stale g' q = is_stale (s_g s) q) by (intro q; unfold is_stale; rewrite H3, H4; auto).
+    destruct (k_peer k =? p) eqn:EP.
+    + apply N.eqb_eq in EP.
+      destruct (g_rib (s_g s) k) eqn:ER.
+      * right; right. split; auto. split. congruence. rewrite HST.
+        destruct (c_before _ _ _ _ _ _ C) as [HB|[_ [o HB]]].
+        -- destruct (c_shape _ _ _ _ _ _ C) as [o [pre HS]]. apply shape_pdgr_last in HS.
+           rewrite HS in HB. destruct (i_drop s HI i p) as [_ [_ [_ HD]]]. apply (HD HB); auto. congruence.
+        -- exfalso. eapply no_expand_pdgr; eauto.
+      * left. rewrite (ribv_none b _ k ER). auto.
+    + eapply A_keep; try exact HA; auto. intros [X Y]. split; [congruence | rewrite HST; auto].
+  - (* MPurgePrep *)
+    destruct HE as [[_ [H2 [H3 H4]]] [_ [H6 H7]]]. rewrite H2, H6, H7.
+    eapply A_keep; try exact HA; auto. apply staleK_frame; auto.
+  - (* MPurgeShard *)
+    destruct HE as [[_ [H2 [H3 H4]]] [_ [H6 H7]]]. rewrite H2, H7, HLv. cbn [andb].
+    destruct (purge_sel (s_g s) all p s0 k) eqn:EA; cbn [andb].
+    + destruct (g_rib (s_g s) k) eqn:ER; cbn [nonnone andb].
+      * rewrite inkeys_in by (apply (i_dom s HI); congruence). left. rewrite ribv_none; auto. rewrite H6, EA. auto.
+      * eapply A_keep; try exact HA; auto.
+        -- apply ribv_ext. rewrite H6, EA. auto.
+        -- intros [X Y]. congruence.
+    + eapply A_keep; try exact HA; auto.
+      * apply ribv_ext. rewrite H6, EA. auto.
+      * intros [X Y]. split. rewrite H6, EA. auto. unfold is_stale in *. rewrite H3, H4. auto.
   - (* MResetPrep *)
-    destruct HE as [_ [H2 [_ [H4 H5]]]]. rewrite H2, H4, H5.
-    eapply A_keep; try exact HA; auto; try (intro; apply HX; auto; discriminate).
+    destruct HE as [[_ [H2 [H3 H4]]] [_ [H6 H7]]]. rewrite H2, H6, H7.
+    eapply A_keep; try exact HA; auto. apply staleK_frame; auto.
   - (* MResetShard *)
-    destruct HE as [_ [H2 [_ [H4 H5]]]]. rewrite H2, H5.
-    assert (HX' : exempt s (k_peer k) -> exempt (after s i t2 g') (k_peer k)) by (intro; apply HX; auto; discriminate).
+    destruct HE as [[_ [H2 [H3 H4]]] [_ [H6 H7]]]. rewrite H2, H7, HLv. cbn [andb].
+    assert (HST : forall q, is_stale g' q = is_stale (s_g s) q) by (intro q; unfold is_stale; rewrite H3, H4; auto).
     assert (HN : g_rib g' k = None <-> g_rib (s_g s) k = None).
-    { rewrite H4. unfold reset_rib. destruct ((k_peer k =? p) && in_shard s0 k); [|tauto].
+    { rewrite H6. unfold reset_rib. destruct (reset_sel (s_g s) p s0 k); [|tauto].
       destruct (g_rib (s_g s) k) as [[? ?]|]; split; congruence. }
-    destruct (b && (k_peer k =? p) && in_shard s0 k && nonnone (g_rib (s_g s) k)) eqn:EA.
-    + apply andb_true_iff in EA. destruct EA as [EA E4]. apply andb_true_iff in EA. destruct EA as [EA E3].
-      apply andb_true_iff in EA. destruct EA as [E1 E2]. subst b.
+    assert (HSK : staleK (s_g s) k -> staleK g' k).
+    { intros [X Y]. split. rewrite HN. auto. rewrite HST. auto. }
+    destruct (b && reset_sel (s_g s) p s0 k && nonnone (g_rib (s_g s) k)) eqn:EA.
+    + apply andb_true_iff in EA. destruct EA as [EA E4]. apply andb_true_iff in EA. destruct EA as [E1 E2]. subst b.
       assert (In k (g_keys (s_g s))).
       { apply (i_dom s HI). destruct (g_rib (s_g s) k); [congruence|discriminate]. }
-      rewrite E2, E3, E4, existsb_key_in by auto.
-      destruct (g_subs (s_g s)) eqn:ESub; cbn [andb].
-      * left. auto.
-      * destruct (i_pre s HI ESub) as [HF HW]. right; left. rewrite HF, HW. split; auto. lia.
-    + assert (HF : (if g_subs (s_g s) && b && (k_peer k =? p) && in_shard s0 k &&
-                       existsb (key_eqb k) (g_keys (s_g s)) && nonnone (g_rib (s_g s) k)
-                    then ribv b (g_rib g') k else fold_b b (g_evs (s_g s)) k) = fold_b b (g_evs (s_g s)) k).
-      { destruct (g_subs (s_g s)); cbn [andb]; auto.
-        destruct b; cbn [andb] in *; auto.
-        destruct (k_peer k =? p); cbn [andb] in *; auto.
-        destruct (in_shard s0 k); cbn [andb] in *; auto.
+      rewrite E2, E4, inkeys_in by auto. cbn [andb]. left. auto.
+    + assert (HF : (if b && reset_sel (s_g s) p s0 k && inkeys (s_g s) k && nonnone (g_rib (s_g s) k)
+                    then ribv b (g_rib g') k else F (s_g s) j b k) = F (s_g s) j b k).
+      { destruct b; cbn [andb] in *; auto.
+        destruct (reset_sel (s_g s) p s0 k); cbn [andb] in *; auto.
         rewrite EA, andb_false_r. auto. }
-      rewrite HF. eapply A_keep; try exact HA; auto; try tauto.
-      unfold ribv. rewrite H4. unfold reset_rib.
-      destruct ((k_peer k =? p) && in_shard s0 k) eqn:E23; auto.
+      rewrite HF. eapply A_keep; try exact HA; auto.
+      unfold ribv. rewrite H6. unfold reset_rib.
+      destruct (reset_sel (s_g s) p s0 k) eqn:E23; auto.
       destruct (g_rib (s_g s) k) as [[tok f]|] eqn:ER; auto.
-      destruct b; cbn [andb] in *; auto.
-      apply andb_true_iff in E23. destruct E23 as [E2 E3]. rewrite E2, E3 in EA. cbn in EA. discriminate.
+      destruct b; cbn [andb] in *; auto. discriminate.
   - (* MSetPol *)
-    destruct HE as [_ [H2 [_ [H4 H5]]]]. rewrite H2, H4, H5.
-    eapply A_keep; try exact HA; auto; try (intro; apply HX; auto; discriminate).
-Qed.
-
-Lemma rib_none_pres g t m g' k :
-  effect g t m g' -> g_rib g k = None ->
-  (forall k0 tok, m = MInsLocked k0 tok -> k <> k0) -> g_rib g' k = None.
-Proof.
-  intros HE HN HK. destruct m; cbn [effect] in HE.
-  - destruct HE as [_ [_ [H3 _]]]. congruence.
-  - destruct HE as [_ [_ [H3 _]]]. congruence.
-  - destruct HE as [_ [_ [_ [H3 _]]]]. congruence.
-  - destruct HE as [_ [_ [_ [_ [H5 _]]]]]. rewrite H5; auto. eapply HK; eauto.
-  - destruct HE as [_ [_ [_ [H3 _]]]]. congruence.
-  - destruct HE as [_ [_ [_ [H3 _]]]]. rewrite H3. destruct (key_eqb k k0); auto.
-  - destruct HE as [_ [_ [_ [H3 _]]]]. congruence.
-  - destruct HE as [_ [_ [_ [H3 _]]]]. congruence.
-  - destruct HE as [_ [_ [_ [_ H3]]]]. rewrite H3. destruct (_ && _); auto.
-  - destruct HE as [_ [_ [_ [H3 _]]]]. congruence.
-  - destruct HE as [_ [_ [_ [H3 _]]]]. congruence.
-  - destruct HE as [_ [_ [_ [H3 _]]]]. rewrite H3. unfold reset_rib. rewrite HN. destruct (_ && _); auto.
-  - destruct HE as [_ [_ [_ [H3 _]]]]. congruence.
+    destruct HE as [[_ [H2 [H3 H4]]] [_ [H6 H7]]]. rewrite H2, H6, H7.
+    eapply A_keep; try exact HA; auto. apply staleK_frame; auto.
+  - (* MNhvPrep *)
+    destruct HE as [[_ [H2 [H3 H4]]] [_ [H6 H7]]]. rewrite H2, H6, H7.
+    eapply A_keep; try exact HA; auto. apply staleK_frame; auto.
+  - (* MNhvShard *)
+    destruct HE as [[_ [H2 [H3 H4]]] [_ [H6 H7]]]. rewrite H2, H6, H7.
+    eapply A_keep; try exact HA; auto. apply staleK_frame; auto.
 Qed.
 
 Lemma drop' s i m t1 t2 g' : ctx s i m t1 t2 g' -> forall j p,
   (t_cur (s_thr (after s i t2 g') j) = [MUnregShard p 1; MPeerDown p] ->
    forall k, k_peer k = p -> shard_of k = 0 -> g_rib g' k = None) /\
-  (t_cur (s_thr (after s i t2 g') j) = [MPeerDown p] -> forall k, k_peer k = p -> g_rib g' k = None).
+  (t_cur (s_thr (after s i t2 g') j) = [MPeerDown p] -> forall k, k_peer k = p -> g_rib g' k = None) /\
+  (t_cur (s_thr (after s i t2 g') j) = [MStaleShard p 1; MPeerDownGr p] ->
+   forall k, k_peer k = p -> shard_of k = 0 -> g_rib g' k <> None -> is_stale g' k = true) /\
+  (t_cur (s_thr (after s i t2 g') j) = [MPeerDownGr p] ->
+   forall k, k_peer k = p -> g_rib g' k <> None -> is_stale g' k = true).
 Proof.
   intros C j p. pose proof (c_inv _ _ _ _ _ _ C) as HI. pose proof (c_eff _ _ _ _ _ _ C) as HE.
   destruct (c_shape _ _ _ _ _ _ C) as [o [pre HS]].
   cbn [after s_thr s_g]. unfold upd_thr. destruct (Nat.eqb j i) eqn:EJ.
   - (* the stepping thread *)
-    rewrite (c_cur _ _ _ _ _ _ C). split; intros HC k Hp.
+    rewrite (c_cur _ _ _ _ _ _ C). repeat split; intros HC k Hp.
     + rewrite HC in HS. apply shape_unreg1 in HS. subst m. cbn [effect] in HE.
-      destruct HE as [_ [_ [_ [_ H5]]]]. intro Hs. rewrite H5.
+      destruct HE as [_ [_ [H5 _]]]. intro Hs. rewrite H5. unfold purge_sel.
       assert (k_peer k =? p = true) as -> by (apply N.eqb_eq; auto).
       assert (in_shard 0 k = true) as -> by (apply in_shard_eq; auto). auto.
     + rewrite HC in HS. pose proof HS as HS'. apply shape_pd in HS. subst m. cbn [effect] in HE.
-      destruct HE as [_ [_ [_ [_ H5]]]]. rewrite H5.
-      assert (k_peer k =? p = true) as -> by (apply N.eqb_eq; auto). cbn [andb].
-      destruct (in_shard 1 k) eqn:ES; auto.
+      destruct HE as [_ [_ [H5 _]]]. rewrite H5. unfold purge_sel.
+      assert (k_peer k =? p = true) as -> by (apply N.eqb_eq; auto). cbn [andb orb].
+      destruct (in_shard 1 k) eqn:ES; auto. rewrite andb_false_l.
       assert (shard_of k = 0).
       { unfold in_shard, shard_of in *. destruct (k_sh k =? 0); auto. discriminate. }
       destruct (c_before _ _ _ _ _ _ C) as [HB|[_ [o' HB]]].
-      * rewrite HC in HB. apply (proj1 (i_drop s HI i p) HB); auto.
+      * rewrite HC in HB. destruct (i_drop s HI i p) as [HD _]. apply (HD HB); auto.
       * exfalso. destruct o'; discriminate.
+    + intros Hs Hr. rewrite HC in HS. apply shape_stale1 in HS. subst m. cbn [effect] in HE.
+      destruct HE as [_ [_ [_ [_ [H5 [_ [_ H8]]]]]]]. apply H8; auto.
+      * apply in_shard_eq. auto.
+      * congruence.
+      * apply inkeys_in. apply (i_dom s HI). congruence.
+    + intros Hr. rewrite HC in HS. pose proof HS as HS'. apply shape_pdgr in HS. subst m. cbn [effect] in HE.
+      destruct HE as [_ [_ [_ [_ [H5 [_ [H7 H8]]]]]]].
+      destruct (in_shard 1 k) eqn:ES.
+      * apply H8; auto. congruence. apply inkeys_in. apply (i_dom s HI). congruence.
+      * assert (shard_of k = 0).
+        { unfold in_shard, shard_of in *. destruct (k_sh k =? 0); auto. discriminate. }
+        apply H7. destruct (c_before _ _ _ _ _ _ C) as [HB|[_ [o' HB]]].
+        -- rewrite HC in HB. destruct (i_drop s HI i p) as [_ [_ [HD _]]]. apply (HD HB); auto. congruence.
+        -- exfalso. destruct o'; discriminate.
   - (* another thread: only its own peer's insert could break it *)
-    assert (HNP : forall k, k_peer k = p -> In (MPeerDown p) (t_cur (s_thr s j)) ->
-                  g_rib (s_g s) k = None -> g_rib g' k = None).
-    { intros k Hp Hin HN. eapply rib_none_pres; eauto. intros k0 tok Hm Hk. subst.
-      apply (i_own s HI i j (k_peer k0)).
+    assert (HNI : forall k x, k_peer k = p -> In x (t_cur (s_thr s j)) -> owns p x -> forall tok, m <> MInsLocked k tok).
+    { intros k x Hp Hin Hown tok Hm. subst m.
+      apply (i_own s HI i j (k_peer k)).
       - intro. subst. rewrite Nat.eqb_refl in EJ. discriminate.
-      - exists (MInsLocked k0 tok). split. rewrite (c_steps _ _ _ _ _ _ C). cbn; auto. cbn. auto.
-      - exists (MPeerDown (k_peer k0)). split. unfold steps. apply in_or_app. auto. cbn. auto. }
-    split; intros HC k Hp.
-    + intro Hs. apply HNP; auto. rewrite HC. cbn; auto.
-      apply (proj1 (i_drop s HI j p) HC); auto.
-    + apply HNP; auto. rewrite HC. cbn; auto.
-      apply (proj2 (i_drop s HI j p) HC); auto.
+      - exists (MInsLocked k tok). split. rewrite (c_steps _ _ _ _ _ _ C). cbn; auto. cbn. auto.
+      - exists x. split. unfold steps. apply in_or_app. auto. rewrite Hp. auto. }
+    repeat split; intros HC k Hp.
+    + intro Hs. eapply eff_rib_none; eauto.
+      * destruct (i_drop s HI j p) as [HD _]. apply (HD HC); auto.
+      * apply (HNI k (MPeerDown p)); auto. rewrite HC. cbn; auto. cbn. auto.
+    + eapply eff_rib_none; eauto.
+      * destruct (i_drop s HI j p) as [_ [HD _]]. apply (HD HC); auto.
+      * apply (HNI k (MPeerDown p)); auto. rewrite HC. cbn; auto. cbn. auto.
+    + intros Hs Hr.
+      assert (HN : forall tok, m <> MInsLocked k tok).
+      { apply (HNI k (MPeerDownGr p)); auto. rewrite HC. cbn; auto. cbn. auto. }
+      destruct (eff_rib_some _ _ _ _ k HE Hr) as [Hr0|[tok Hm]]; [|exfalso; eapply HN; eauto].
+      eapply eff_stale; eauto. destruct (i_drop s HI j p) as [_ [_ [HD _]]]. apply (HD HC); auto.
+    + intros Hr.
+      assert (HN : forall tok, m <> MInsLocked k tok).
+      { apply (HNI k (MPeerDownGr p)); auto. rewrite HC. cbn; auto. cbn. auto. }
+      destruct (eff_rib_some _ _ _ _ k HE Hr) as [Hr0|[tok Hm]]; [|exfalso; eapply HN; eauto].
+      eapply eff_stale; eauto. destruct (i_drop s HI j p) as [_ [_ [_ HD]]]. apply (HD HC); auto.
 Qed.
 
 Lemma ctx_inv s i m t1 t2 g' : ctx s i m t1 t2 g' -> Inv (after s i t2 g').
 Proof.
   intro C. constructor; cbn [after s_g].
   - apply (pre' _ _ _ _ _ _ C).
-  - intro j. apply (wok' _ _ _ _ _ _ j C).
+  - intros i' j. apply (wok' _ _ _ _ _ _ i' j C).
   - apply (dom' _ _ _ _ _ _ C).
   - apply (key' _ _ _ _ _ _ C).
   - apply (drop' _ _ _ _ _ _ C).
@@ -760,103 +952,119 @@ Qed.
 
 Lemma Inv_init progs : wf_progs progs -> Inv (init progs).
 Proof.
-  intro HW. constructor; cbn [init s_g s_thr glob0 g_subs g_evs g_walk g_rib g_keys].
+  intro HW. constructor; cbn [init s_g s_thr glob0 g_ph g_evs g_walk g_rib g_keys].
   - auto.
-  - intro i. unfold steps. cbn [t_cur t_ops app]. apply wok_flat.
+  - intros i j. unfold steps. cbn [t_cur t_ops app]. apply wok_flat.
   - intros k H. congruence.
-  - intros b k. left. reflexivity.
-  - intros i p. cbn [t_cur]. split; discriminate.
+  - intros j b k H. discriminate.
+  - intros i p. cbn [t_cur]. repeat split; discriminate.
   - intros i j p Hij H1 H2. unfold steps in *. cbn [t_cur t_ops app] in *.
     apply owns_any_flat in H1. apply owns_any_flat in H2.
     destruct H1 as [o1 [I1 O1]]. destruct H2 as [o2 [I2 O2]]. eapply HW; eauto.
-  - intro i. cbn [t_cur]. exists Subscribe, (expand Subscribe). rewrite app_nil_r. auto.
+  - intro i. cbn [t_cur]. exists (Subscribe 0), (expand (Subscribe 0)). rewrite app_nil_r. auto.
+Qed.
+
+(* a thread whose program contains Subscribe j ends with both shards snapshotted by j *)
+Fixpoint count_walk (j : nat) (l : list mstep) : N :=
+  match l with
+  | [] => 0
+  | MWalk i :: t => (if Nat.eqb i j then 1 else 0) + count_walk j t
+  | _ :: t => count_walk j t
+  end.
+
+Lemma count_walk_app j a b : count_walk j (a ++ b) = count_walk j a + count_walk j b.
+Proof. induction a as [|m t IH]; cbn [app count_walk]; auto. destruct m; rewrite ?IH; lia. Qed.
+
+Lemma count_walk_flat j ops : In (Subscribe j) ops -> 2 <= count_walk j (flat_map expand ops).
+Proof.
+  induction ops as [|o t IH]; cbn [In flat_map]; try tauto.
+  intros [->|H]; rewrite count_walk_app.
+  - cbn [expand count_walk]. rewrite Nat.eqb_refl. lia.
+  - specialize (IH H). lia.
+Qed.
+
+Lemma walk_progress s i i' j : Inv s ->
+  g_walk (s_g s) j + count_walk j (steps (s_thr s i')) <=
+  g_walk (s_g (sys_step c V s i)) j + count_walk j (steps (s_thr (sys_step c V s i) i')).
+Proof.
+  intro HI. unfold sys_step.
+  destruct (next_step (s_thr s i)) as [[m t1]|] eqn:EN; try lia.
+  pose proof (exec_steps (s_g s) t1 m) as HT.
+  pose proof (eff_walk _ _ _ _ (exec_effect (s_g s) t1 m (i_dom s HI))) as HW.
+  destruct (exec c V (s_g s) t1 m) as [g' t2] eqn:E. cbn [s_g s_thr fst snd] in *.
+  assert (HWj : g_walk (s_g s) j <= g_walk g' j).
+  { rewrite HW. destruct m; try lia. unfold upd_nat. destruct (Nat.eqb j j0) eqn:EJ; try lia.
+    apply Nat.eqb_eq in EJ. subst. lia. }
+  unfold upd_thr. destruct (Nat.eqb i' i) eqn:EJ; try lia.
+  apply Nat.eqb_eq in EJ. subst i'.
+  destruct (next_step_some _ _ _ (i_cur s HI i) EN) as [HS _]. rewrite HS, HT.
+  destruct m; cbn [count_walk]; try lia.
+  rewrite HW. unfold upd_nat. rewrite (Nat.eqb_sym j0 j). destruct (Nat.eqb j j0) eqn:EJ; try lia.
+  apply Nat.eqb_eq in EJ. subst. lia.
+Qed.
+
+Lemma run_walk sched : forall s i' j, Inv s ->
+  g_walk (s_g s) j + count_walk j (steps (s_thr s i')) <=
+  g_walk (s_g (run_sched c V s sched)) j + count_walk j (steps (s_thr (run_sched c V s sched) i')).
+Proof.
+  induction sched as [|i t IH]; intros s i' j HI; cbn [run_sched fold_left]; try lia.
+  pose proof (walk_progress s i i' j HI) as H1.
+  pose proof (IH (sys_step c V s i) i' j (step_inv s i HI)) as H2. unfold run_sched in *. lia.
+Qed.
+
+Lemma subscribed_walked progs sched i j :
+  wf_progs progs -> In (Subscribe j) (nth i progs []) ->
+  all_done (run_sched c V (init progs) sched) ->
+  2 <= g_walk (s_g (run_sched c V (init progs) sched)) j.
+Proof.
+  intros HW HS HD.
+  pose proof (run_walk sched (init progs) i j (Inv_init progs HW)) as H.
+  rewrite (next_step_none _ (HD i)) in H. cbn [count_walk] in H.
+  unfold steps in H at 1. cbn [init s_thr s_g t_cur t_ops app glob0 g_walk] in H.
+  pose proof (count_walk_flat j _ HS). lia.
 Qed.
 
 End Inv.
 
 (* ================================================================ *)
 (* Final statements *)
-Lemma all_done_no_exempt s p : all_done s -> ~ exempt s p.
-Proof. intros HD [i H]. rewrite (next_step_none _ (HD i)) in H. destruct H. Qed.
-
 Lemma shard_lt2 k : shard_of k < 2.
 Proof. unfold shard_of. destruct (k_sh k =? 0); lia. Qed.
 
 Theorem C18_subscriber_fold_eq_rib :
-  forall (c : cfg) (progs : list (list op)) (sched : list nat),
-    wf_progs progs ->
+  forall (c : cfg) (progs : list (list op)) (sched : list nat) (i j : nat),
+    wf_progs progs -> In (Subscribe j) (nth i progs []) ->
     let s := run_sched c Fixed (init progs) sched in
-    all_done s -> 2 <= g_walk (s_g s) ->
-    forall k, fold_pre (g_evs (s_g s)) k = rib_pre (s_g s) k /\
-              fold_post (g_evs (s_g s)) k = rib_post (s_g s) k.
+    all_done s -> g_ph (s_g s) j = 1 ->
+    forall k, holds_exactly (s_g s) j false k /\ holds_exactly (s_g s) j true k.
 Proof.
-  intros c progs sched HW s HD H2 k.
+  intros c progs sched i j HW HS s HD HP k.
   assert (HI : Inv s) by (apply run_inv; apply Inv_init; auto).
-  assert (HK : forall b, fold_b b (g_evs (s_g s)) k = ribv b (g_rib (s_g s)) k).
-  { intro b. destruct (i_key s HI b k) as [H|[[H _]|[_ H]]]; auto.
+  pose proof (subscribed_walked c progs sched i j HW HS HD) as H2. fold s in H2.
+  assert (HK : forall b, holds_exactly (s_g s) j b k).
+  { intro b. unfold holds_exactly. cbn zeta.
+    assert (HF : (if b then fold_post else fold_pre) (g_evs (s_g s) j) k = fold_b b (g_evs (s_g s) j) k)
+      by (destruct b; reflexivity).
+    rewrite HF. destruct (i_key s HI j b k HP) as [H|[[H _]|[H H']]].
+    - left; auto.
     - pose proof (shard_lt2 k). lia.
-    - exfalso. eapply all_done_no_exempt; eauto. }
-  split. apply (HK false). apply (HK true).
+    - right. split; auto. }
+  split; apply HK.
 Qed.
 
-(* a thread whose program contains Subscribe ends with both shards snapshotted *)
-Fixpoint count_walk (l : list mstep) : N :=
-  match l with
-  | [] => 0
-  | MWalk :: t => 1 + count_walk t
-  | _ :: t => count_walk t
-  end.
-
-Lemma count_walk_app a b : count_walk (a ++ b) = count_walk a + count_walk b.
-Proof. induction a as [|m t IH]; cbn [app count_walk]; auto. destruct m; rewrite ?IH; lia. Qed.
-
-Lemma count_walk_flat ops : In Subscribe ops -> 2 <= count_walk (flat_map expand ops).
+(* when no path is retained stale the subscriber holds the two Adj-RIB-In views exactly *)
+Theorem C18_subscriber_fold_eq_rib_no_stale :
+  forall (c : cfg) (progs : list (list op)) (sched : list nat) (i j : nat),
+    wf_progs progs -> In (Subscribe j) (nth i progs []) ->
+    let s := run_sched c Fixed (init progs) sched in
+    all_done s -> g_ph (s_g s) j = 1 -> (forall k, ~ stale_retained (s_g s) k) ->
+    forall k, fold_pre (g_evs (s_g s) j) k = rib_pre (s_g s) k /\
+              fold_post (g_evs (s_g s) j) k = rib_post (s_g s) k.
 Proof.
-  induction ops as [|o t IH]; cbn [In flat_map]; try tauto.
-  intros [->|H]; rewrite count_walk_app.
-  - cbn [expand count_walk]. lia.
-  - specialize (IH H). lia.
-Qed.
-
-Lemma effect_walk c g t m g' : effect c g t m g' ->
-  g_walk g' = match m with MWalk => g_walk g + 1 | _ => g_walk g end.
-Proof. intro H. destruct m; cbn [effect] in H; intuition. Qed.
-
-Lemma walk_progress c s i j : Inv s ->
-  g_walk (s_g s) + count_walk (steps (s_thr s j)) <=
-  g_walk (s_g (sys_step c Fixed s i)) + count_walk (steps (s_thr (sys_step c Fixed s i) j)).
-Proof.
-  intro HI. unfold sys_step.
-  destruct (next_step (s_thr s i)) as [[m t1]|] eqn:EN; try lia.
-  pose proof (exec_steps c (s_g s) t1 m) as HT.
-  pose proof (effect_walk c _ _ _ _ (exec_effect c (s_g s) t1 m (i_dom s HI))) as HW.
-  destruct (exec c Fixed (s_g s) t1 m) as [g' t2] eqn:E. cbn [s_g s_thr fst snd] in *.
-  unfold upd_thr. destruct (Nat.eqb j i) eqn:EJ.
-  - apply Nat.eqb_eq in EJ. subst j.
-    destruct (next_step_some _ _ _ (i_cur s HI i) EN) as [HS _]. rewrite HS, HT, HW.
-    destruct m; cbn [count_walk]; lia.
-  - rewrite HW. destruct m; lia.
-Qed.
-
-Lemma run_walk c sched : forall s j, Inv s ->
-  g_walk (s_g s) + count_walk (steps (s_thr s j)) <=
-  g_walk (s_g (run_sched c Fixed s sched)) + count_walk (steps (s_thr (run_sched c Fixed s sched) j)).
-Proof.
-  induction sched as [|i t IH]; intros s j HI; cbn [run_sched fold_left]; try lia.
-  pose proof (walk_progress c s i j HI) as H1.
-  pose proof (IH (sys_step c Fixed s i) j (step_inv c s i HI)) as H2. unfold run_sched in *. lia.
-Qed.
-
-Lemma subscribed_walked c progs sched i :
-  wf_progs progs -> In Subscribe (nth i progs []) ->
-  all_done (run_sched c Fixed (init progs) sched) ->
-  2 <= g_walk (s_g (run_sched c Fixed (init progs) sched)).
-Proof.
-  intros HW HS HD.
-  pose proof (run_walk c sched (init progs) i (Inv_init progs HW)) as H.
-  rewrite (next_step_none _ (HD i)) in H. cbn [count_walk] in H.
-  unfold steps in H at 1. cbn [init s_thr s_g t_cur t_ops app glob0 g_walk] in H.
-  pose proof (count_walk_flat _ HS). lia.
+  intros c progs sched i j HW HS s HD HP HN k.
+  destruct (C18_subscriber_fold_eq_rib c progs sched i j HW HS HD HP k) as [[H1|[H1 _]] [H2|[H2 _]]];
+    try (exfalso; eapply HN; eauto; fail).
+  split; auto.
 Qed.
 
 (* the fold is determined by the last event that concerns the key *)
@@ -885,52 +1093,25 @@ Proof.
 Qed.
 
 Theorem C18_last_event_is_current :
-  forall (c : cfg) (progs : list (list op)) (sched : list nat),
-    wf_progs progs ->
+  forall (c : cfg) (progs : list (list op)) (sched : list nat) (i j : nat),
+    wf_progs progs -> In (Subscribe j) (nth i progs []) ->
     let s := run_sched c Fixed (init progs) sched in
-    all_done s -> 2 <= g_walk (s_g s) ->
-    forall k,
-      (forall x, last_touch false k (g_evs (s_g s)) = Some x -> rib_pre (s_g s) k = x) /\
-      (last_touch false k (g_evs (s_g s)) = None -> rib_pre (s_g s) k = None) /\
-      (forall x, last_touch true k (g_evs (s_g s)) = Some x -> rib_post (s_g s) k = x) /\
-      (last_touch true k (g_evs (s_g s)) = None -> rib_post (s_g s) k = None).
+    all_done s -> g_ph (s_g s) j = 1 ->
+    forall b k,
+      (forall x, last_touch b k (g_evs (s_g s) j) = Some x ->
+                 ribv b (g_rib (s_g s)) k = x \/ (stale_retained (s_g s) k /\ x = None)) /\
+      (last_touch b k (g_evs (s_g s) j) = None ->
+                 ribv b (g_rib (s_g s)) k = None \/ stale_retained (s_g s) k).
 Proof.
-  intros c progs sched HW s HD H2 k.
-  destruct (C18_subscriber_fold_eq_rib c progs sched HW HD H2 k) as [H3 H4].
-  fold s in H3, H4. rewrite <- fold_b_pre, fold_last_touch in H3. rewrite <- fold_b_post, fold_last_touch in H4.
-  repeat split.
-  - intros x Hx. rewrite Hx in H3. auto.
-  - intro Hx. rewrite Hx in H3. auto.
-  - intros x Hx. rewrite Hx in H4. auto.
-  - intro Hx. rewrite Hx in H4. auto.
-Qed.
-
-(* the statements with "some thread subscribes" instead of "the snapshot is complete" *)
-Theorem C18_subscriber_fold_eq_rib_sub :
-  forall (c : cfg) (progs : list (list op)) (sched : list nat) (i : nat),
-    wf_progs progs -> In Subscribe (nth i progs []) ->
-    let s := run_sched c Fixed (init progs) sched in
-    all_done s ->
-    forall k, fold_pre (g_evs (s_g s)) k = rib_pre (s_g s) k /\
-              fold_post (g_evs (s_g s)) k = rib_post (s_g s) k.
-Proof.
-  intros c progs sched i HW HS s HD. apply C18_subscriber_fold_eq_rib; auto.
-  eapply subscribed_walked; eauto.
-Qed.
-
-Theorem C18_last_event_is_current_sub :
-  forall (c : cfg) (progs : list (list op)) (sched : list nat) (i : nat),
-    wf_progs progs -> In Subscribe (nth i progs []) ->
-    let s := run_sched c Fixed (init progs) sched in
-    all_done s ->
-    forall k,
-      (forall x, last_touch false k (g_evs (s_g s)) = Some x -> rib_pre (s_g s) k = x) /\
-      (last_touch false k (g_evs (s_g s)) = None -> rib_pre (s_g s) k = None) /\
-      (forall x, last_touch true k (g_evs (s_g s)) = Some x -> rib_post (s_g s) k = x) /\
-      (last_touch true k (g_evs (s_g s)) = None -> rib_post (s_g s) k = None).
-Proof.
-  intros c progs sched i HW HS s HD. apply C18_last_event_is_current; auto.
-  eapply subscribed_walked; eauto.
+  intros c progs sched i j HW HS s HD HP b k.
+  assert (HH : holds_exactly (s_g s) j b k).
+  { destruct (C18_subscriber_fold_eq_rib c progs sched i j HW HS HD HP k) as [H1 H2]. destruct b; auto. }
+  unfold holds_exactly in HH. cbn zeta in HH.
+  assert (HF : (if b then fold_post else fold_pre) (g_evs (s_g s) j) k = fold_b b (g_evs (s_g s) j) k)
+    by (destruct b; reflexivity).
+  rewrite HF, fold_last_touch in HH. split.
+  - intros x Hx. rewrite Hx in HH. destruct HH as [HH|[H1 H2]]; auto.
+  - intro Hx. rewrite Hx in HH. destruct HH as [HH|[H1 H2]]; auto.
 Qed.
 
 (* track_peer_up / track_peer_down: a PeerDown is forwarded only for a peer whose
@@ -950,7 +1131,6 @@ Theorem C18_peer_down_only_after_up :
   forall (sent : list N) (evs : list ev), paired sent (forward sent evs).
 Proof. intros. apply forward_paired. auto. Qed.
 
-
 (* ================================================================ *)
 (* Witnesses against the behaviour before the fix commits (variant Legacy),
    replayed on the unfixed code through the harness (corpus/C18/), and
@@ -958,89 +1138,119 @@ Proof. intros. apply forward_paired. auto. Qed.
 Definition K (p sh ix pid : N) : key := {| k_peer := p; k_sh := sh; k_ix := ix; k_pid := pid |}.
 Definition ex_cfg : cfg := {| c_pols := [[1; 2]; [3]]; c_lims := [] |}.
 
+Ltac wf_tac :=
+  let i := fresh "i" in let j := fresh "j" in
+  intros i j p o1 o2 Hij H1 H2 O1 O2;
+  destruct i as [|[|[|i]]], j as [|[|[|j]]]; cbn in H1, H2; try tauto;
+  repeat (destruct H1 as [H1|H1]; [subst o1|]); repeat (destruct H2 as [H2|H2]; [subst o2|]);
+  cbn in *; try tauto; try (destruct i; tauto); try (destruct j; tauto).
+
 (* C18-2: soft_reset_in loaded the subscriber list before the shard loop; the
    subscriber registers and snapshots shard 0 in between *)
 Definition ex_progs_reset : list (list op) :=
-  [[Subscribe]; [Ins (K 1 0 0 0) 1; Ins (K 1 1 0 0) 2]; [SetPol 1; SoftReset 1]].
+  [[Subscribe 0]; [Ins (K 1 0 0 0) 1; Ins (K 1 1 0 0) 2]; [SetPol 1; SoftReset 1]].
 Definition ex_sched_reset : list nat := [1; 2; 2; 1; 0; 0; 1; 2; 2; 0; 1]%nat.
 
 Lemma ex_wf_reset : wf_progs ex_progs_reset.
-Proof.
-  intros i j p o1 o2 Hij H1 H2 O1 O2.
-  destruct i as [|[|[|i]]], j as [|[|[|j]]]; cbn in H1, H2; try tauto;
-    repeat (destruct H1 as [H1|H1]; [subst o1|]); repeat (destruct H2 as [H2|H2]; [subst o2|]);
-    cbn in *; try tauto; try (destruct i; tauto); try (destruct j; tauto).
-Qed.
+Proof. wf_tac. Qed.
 
 Lemma ex_done_reset v : all_done (run_sched ex_cfg v (init ex_progs_reset) ex_sched_reset).
 Proof. intro i. destruct i as [|[|[|[|i]]]]; destruct v; reflexivity. Qed.
 
 Lemma C18_subscriber_fold_eq_rib_legacy_refuted :
-  exists (c : cfg) (progs : list (list op)) (sched : list nat) (k : key),
-    wf_progs progs /\
+  exists (c : cfg) (progs : list (list op)) (sched : list nat) (i j : nat) (k : key),
+    wf_progs progs /\ In (Subscribe j) (nth i progs []) /\
     let s := run_sched c Legacy (init progs) sched in
-    all_done s /\ 2 <= g_walk (s_g s) /\
-    fold_post (g_evs (s_g s)) k <> rib_post (s_g s) k.
+    all_done s /\ g_ph (s_g s) j = 1 /\ ~ holds_exactly (s_g s) j true k.
 Proof.
-  exists ex_cfg, ex_progs_reset, ex_sched_reset, (K 1 0 0 0).
-  split. apply ex_wf_reset. split. apply ex_done_reset. split.
-  - vm_compute. discriminate.
-  - vm_compute. discriminate.
+  exists ex_cfg, ex_progs_reset, ex_sched_reset, 0%nat, 0%nat, (K 1 0 0 0).
+  split. apply ex_wf_reset. split. cbn; auto. split. apply ex_done_reset. split. reflexivity.
+  intros [H|[_ H]]; vm_compute in H; congruence.
 Qed.
 
 Example ex_reset_fixed :
   let s := run_sched ex_cfg Fixed (init ex_progs_reset) ex_sched_reset in
-  g_walk (s_g s) = 2 /\ fold_post (g_evs (s_g s)) (K 1 0 0 0) = None /\ rib_post (s_g s) (K 1 0 0 0) = None /\
-  fold_pre (g_evs (s_g s)) (K 1 0 0 0) = Some 1 /\ rib_pre (s_g s) (K 1 0 0 0) = Some 1.
+  g_walk (s_g s) 0%nat = 2 /\ fold_post (g_evs (s_g s) 0%nat) (K 1 0 0 0) = None /\ rib_post (s_g s) (K 1 0 0 0) = None /\
+  fold_pre (g_evs (s_g s) 0%nat) (K 1 0 0 0) = Some 1 /\ rib_pre (s_g s) (K 1 0 0 0) = Some 1.
 Proof. vm_compute. auto. Qed.
 
 (* C18-1: an insert refused by the prefix limit had already been announced *)
 Definition ex_cfg_lim : cfg := {| c_pols := []; c_lims := [(1, 1)] |}.
-Definition ex_progs_lim : list (list op) := [[Subscribe]; [Ins (K 1 0 0 0) 1; Ins (K 1 1 0 0) 2]].
+Definition ex_progs_lim : list (list op) := [[Subscribe 0]; [Ins (K 1 0 0 0) 1; Ins (K 1 1 0 0) 2]].
 Definition ex_sched_lim : list nat := [0; 0; 0; 1; 1; 1; 1]%nat.
 
 Lemma ex_wf_lim : wf_progs ex_progs_lim.
-Proof.
-  intros i j p o1 o2 Hij H1 H2 O1 O2.
-  destruct i as [|[|i]], j as [|[|j]]; cbn in H1, H2; try tauto;
-    repeat (destruct H1 as [H1|H1]; [subst o1|]); repeat (destruct H2 as [H2|H2]; [subst o2|]);
-    cbn in *; try tauto; try (destruct i; tauto); try (destruct j; tauto).
-Qed.
+Proof. wf_tac. Qed.
 
 Lemma C18_subscriber_fold_eq_rib_legacy_limit_refuted :
-  exists (c : cfg) (progs : list (list op)) (sched : list nat) (k : key),
-    wf_progs progs /\
+  exists (c : cfg) (progs : list (list op)) (sched : list nat) (i j : nat) (k : key),
+    wf_progs progs /\ In (Subscribe j) (nth i progs []) /\
     let s := run_sched c Legacy (init progs) sched in
-    all_done s /\ 2 <= g_walk (s_g s) /\
-    fold_pre (g_evs (s_g s)) k <> rib_pre (s_g s) k.
+    all_done s /\ g_ph (s_g s) j = 1 /\ ~ holds_exactly (s_g s) j false k.
 Proof.
-  exists ex_cfg_lim, ex_progs_lim, ex_sched_lim, (K 1 1 0 0).
-  split. apply ex_wf_lim. split.
+  exists ex_cfg_lim, ex_progs_lim, ex_sched_lim, 0%nat, 0%nat, (K 1 1 0 0).
+  split. apply ex_wf_lim. split. cbn; auto. split.
   - intro i. destruct i as [|[|[|i]]]; reflexivity.
-  - split; vm_compute; discriminate.
+  - split. reflexivity. intros [H|[_ H]]; vm_compute in H; congruence.
 Qed.
 
 Example ex_lim_fixed :
   let s := run_sched ex_cfg_lim Fixed (init ex_progs_lim) ex_sched_lim in
-  fold_pre (g_evs (s_g s)) (K 1 1 0 0) = None /\ rib_pre (s_g s) (K 1 1 0 0) = None /\
-  last_touch false (K 1 1 0 0) (g_evs (s_g s)) = Some None.
+  fold_pre (g_evs (s_g s) 0%nat) (K 1 1 0 0) = None /\ rib_pre (s_g s) (K 1 1 0 0) = None /\
+  last_touch false (K 1 1 0 0) (g_evs (s_g s) 0%nat) = Some None.
 Proof. vm_compute. auto. Qed.
 
-(* a non-trivial run satisfying the hypotheses of the theorems: two sessions, a
-   session going down, live events after the snapshot *)
+(* C18-3: the stale purge removed retained paths without any Adj-RIB-In event; a
+   subscriber that registered during the graceful-restart window keeps them *)
+Definition ex_progs_purge : list (list op) :=
+  [[Subscribe 0]; [Ins (K 1 0 0 0) 1; GrDown 1; DropStale 1]].
+Definition ex_sched_purge : list nat := [1; 1; 1; 1; 1; 1; 0; 0; 0; 1; 1; 1]%nat.
+
+Lemma ex_wf_purge : wf_progs ex_progs_purge.
+Proof. wf_tac. Qed.
+
+Lemma C18_subscriber_fold_eq_rib_legacy_purge_refuted :
+  exists (c : cfg) (progs : list (list op)) (sched : list nat) (i j : nat) (k : key),
+    wf_progs progs /\ In (Subscribe j) (nth i progs []) /\
+    let s := run_sched c Legacy (init progs) sched in
+    all_done s /\ g_ph (s_g s) j = 1 /\ ~ holds_exactly (s_g s) j false k.
+Proof.
+  exists ex_cfg, ex_progs_purge, ex_sched_purge, 0%nat, 0%nat, (K 1 0 0 0).
+  split. apply ex_wf_purge. split. cbn; auto. split.
+  - intro i. destruct i as [|[|[|i]]]; reflexivity.
+  - split. reflexivity. intros [H|[_ H]]; vm_compute in H; congruence.
+Qed.
+
+Example ex_purge_fixed :
+  let s := run_sched ex_cfg Fixed (init ex_progs_purge) ex_sched_purge in
+  fold_pre (g_evs (s_g s) 0%nat) (K 1 0 0 0) = None /\ rib_pre (s_g s) (K 1 0 0 0) = None /\
+  length (g_evs (s_g s) 0%nat) = 5%nat.
+Proof. vm_compute. auto. Qed.
+
+(* the stale-retained disjunct is inhabited: a subscriber that saw the PeerDown of a
+   graceful-restart session has forgotten a path the RIB still keeps *)
+Example ex_stale_retained :
+  let progs := [[Subscribe 0]; [Ins (K 1 0 0 0) 1; GrDown 1]] in
+  let s := run_sched ex_cfg Fixed (init progs) [0; 0; 0; 1; 1; 1; 1; 1; 1]%nat in
+  rib_pre (s_g s) (K 1 0 0 0) = Some 1 /\ fold_pre (g_evs (s_g s) 0%nat) (K 1 0 0 0) = None /\
+  is_stale (s_g s) (K 1 0 0 0) = true.
+Proof. vm_compute. auto. Qed.
+
+(* a non-trivial run satisfying the hypotheses of the theorems: two subscriptions, an
+   unsubscribe, two sessions, a session going down, live events after the snapshot *)
 Definition ex_progs_busy : list (list op) :=
-  [[Subscribe]; [Up 1; Ins (K 1 0 0 0) 1; Ins (K 1 1 1 0) 2; Rem (K 1 0 0 0); Down 1];
-   [Ins (K 2 1 0 1) 3; SetPol 2; SoftReset 2; Ins (K 2 0 0 0) 0]].
+  [[Subscribe 0; Unsubscribe 0; Subscribe 1];
+   [Up 1; Ins (K 1 0 0 0) 1; Ins (K 1 1 1 0) 2; Rem (K 1 0 0 0); Down 1];
+   [Ins (K 2 1 0 1) 3; SetPol 2; SoftReset 2; Ins (K 2 0 0 0) 0; Subscribe 2]].
 Definition ex_sched_busy : list nat :=
-  [1; 2; 2; 1; 1; 0; 2; 1; 0; 1; 2; 2; 1; 0; 1; 2; 2; 2; 1; 1; 1; 1; 2]%nat.
+  [1; 2; 2; 1; 1; 0; 2; 1; 0; 1; 2; 2; 1; 0; 1; 2; 2; 2; 1; 1; 1; 1; 2; 0; 0; 0; 0; 2; 2; 2]%nat.
 
 Example ex_busy :
   let s := run_sched ex_cfg Fixed (init ex_progs_busy) ex_sched_busy in
-  g_walk (s_g s) = 2 /\ rib_pre (s_g s) (K 2 0 0 0) = Some 0 /\ rib_pre (s_g s) (K 1 1 1 0) = None /\
-  length (g_evs (s_g s)) = 15%nat /\
-  (* the PeerUp preceded the registration: the PeerDown is delivered but not forwarded *)
-  In (EvDown 1) (g_evs (s_g s)) /\ forward [] (g_evs (s_g s)) = [].
-Proof. vm_compute. intuition. Qed.
+  g_ph (s_g s) 0%nat = 2 /\ g_ph (s_g s) 1%nat = 1 /\ g_ph (s_g s) 2%nat = 1 /\
+  g_walk (s_g s) 1%nat = 2 /\ rib_pre (s_g s) (K 2 0 0 0) = Some 0 /\ rib_pre (s_g s) (K 1 1 1 0) = None /\
+  fold_pre (g_evs (s_g s) 1%nat) (K 2 0 0 0) = Some 0 /\ fold_pre (g_evs (s_g s) 2%nat) (K 2 0 0 0) = Some 0.
+Proof. vm_compute. repeat split; reflexivity. Qed.
 
 Example ex_paired_nontrivial : paired [] [EvUp 1; EvDown 1; EvUp 2] /\ ~ paired [] [EvDown 1].
 Proof. split. cbn. auto. cbn. tauto. Qed.
